@@ -16,723 +16,881 @@ Definition terms (ts : list tok) (t : pt) : string :=
   digest (show_toks (Some ts)) ++ " " ++ digest (show_pt (Some t)) ++ " " ++ digest (show_pt (parse ts)).
 Definition terms_full (ts : list tok) (t : pt) : string :=
   show_toks (Some ts) ++ nl ++ show_pt (Some t) ++ nl ++ show_pt (parse ts).
-Eval vm_compute in ("<<<M8>>>" ++ check (runes_of_ascii "packet leftPad
-    { @tag( 3 )
-    @tag( // trailing space 
-255 ) @tag( 7 ) Packet @calculatedFrom(
-    ""\n"" )
-    ,
-    @calculatedFrom(
-//x
-/// triple
-""abc""
-)
-    repeat
-    f32a
-    trueish `// not a comment` ,
-    match
-    /// triple
-    calculatedFrom
-as stringy { [	1
+Eval vm_compute in ("<<<M8>>>" ++ check (runes_of_ascii "options{ Packet
+=  00 ;
+u128= true
+Pad // a // b
+=  '0' }	MetaData a1
+{ Z9_ Foo// 50% %s
 ,
-    // @lengthOf(
-    65535 ] :
-    u  ,}
-// `tick` ""quote"" 'q'
-/// triple
-, zchar[ 10 ] o `` , @lengthOf(calculatedFrom
-)
-char x_y_z ,char[] BodyLength ,stringy o
-`line1
-line2` ,
-@tag( 00 )options1  {// @lengthOf(
-float32 asx
-@lengthOf( roots ) ,
-// " ++ [128512]%N ++ runes_of_ascii " emoji
-// `tick` ""quote"" 'q'
-match Z9_
-as
-int
-    {""{,}""
-: A [ // " ++ [27880; 37322]%N ++ runes_of_ascii "
-""a\""b""  ,
-""it's""
-    ] :	repeatCount ,1 :
-    float , ""a\\"": zchar// `tick` ""quote"" 'q'
-[0 , ""abc"" ,0,  00,
-0
-    ,
-""" ++ [128512]%N ++ runes_of_ascii """ ]: T
-, 0123456789	: As , }
-    , }, @lengthOf(
-    msg_type ) i8
-matchKey , repeat
-len len `a\`
-,	}")).
-Eval vm_compute in ("<<<M18>>>" ++ check (runes_of_ascii "root  packet
-Pad {
-@tag(65535 ) @lengthOf(
-matchKey) //
-int32 pack
-    , // `tick` ""quote"" 'q'
-zchar[65535  ]
-charz @calculatedFrom(""""
-    )
-`crlf
-line` , }
-MetaData
-options1
-    {charz crc
-//
-// " ++ [27880; 37322]%N ++ runes_of_ascii "
-, body packetx `// not a comment`, } packet string_ { char[	7 // @lengthOf(
-]
-T	@calculatedFrom(""\" ++ [233]%N ++ runes_of_ascii """) // c
-, @leftPad ( '\x00')@calculatedFrom(
-""packet"" )
-@tag( 42
-// " ++ [128512]%N ++ runes_of_ascii " emoji
-// " ++ [128512]%N ++ runes_of_ascii " emoji
-) string string_ @calculatedFrom( """ ++ [28040; 24687]%N ++ runes_of_ascii """ ) `a\` , }
-")).
-Eval vm_compute in ("<<<M28>>>" ++ check (runes_of_ascii "root packet Packet{ char[]
-    msg_type @calculatedFrom(""a\\"" ) , repeat
-    u16 a1
-`say ""hi""`
-,f32a
-stringy
-`u8 x,` ,
-    uint16 int	, @calculatedFrom( ""// no comment""
-) repeat
-// a // b
-// c
-u8 T, zchar[
-// packet A { u8 x, }
-// " ++ [27880; 37322]%N ++ runes_of_ascii "
-65535
-//x
-//
-]  T , // `tick` ""quote"" 'q'
-repeat chars	{ char[] tag //x
-`" ++ [233]%N ++ runes_of_ascii "`,int64 A	@calculatedFrom(	""\n"" )`// not a comment`
-, match trueish as i8i8 {[ ""a\""b""]	: MetaDataX, } , len {zchar[ 65535 ]o
-    @lengthOf( body  ) `a\`//
-, string options1`two words`
-    , tag
-    // `tick` ""quote"" 'q'
-    { T `{ , }`
-    , charz
-    ,i8 // trailing space 
-uint8x ,} ,char[]packetx// @lengthOf(
-@lengthOf(// c
-roots ) ,} ,
-    }
-,//
-string  x, } // trailing space ")).
-Eval vm_compute in ("<<<M38>>>" ++ check (runes_of_ascii "MetaData
-chars { f32 metadata , i64
-    metadata
-// trailing space 
-//x
-`
-` // `tick` ""quote"" 'q'
-,}")).
-Eval vm_compute in ("<<<M48>>>" ++ check (runes_of_ascii "
-")).
-Eval vm_compute in ("<<<T48>>>" ++ terms [mkTok 0 "<EOF>" 2 0 false] (mkPacket (mkPtok 0 "<EOF>" 2 0 0) None [])).
-Eval vm_compute in ("<<<M58>>>" ++ check (runes_of_ascii "// `tick` ""quote"" 'q'
-
-/// triple
-")).
-Eval vm_compute in ("<<<M68>>>" ++ check (runes_of_ascii "// c
-MetaData calculatedFrom {Foo msg_type ,
-}
-")).
-Eval vm_compute in ("<<<M78>>>" ++ check (runes_of_ascii "MetaData
-chars {
-uint32 chars	`doc` , int64 float, // trailing space 
-u8
-pack `
-` ,
-    }
-")).
-Eval vm_compute in ("<<<M88>>>" ++ check (runes_of_ascii "MetaData rootA
-    {}
-options{ rootA= '\x00' zchar
-    ='0' rootA= float64 ;  trueish	= 3 i64_
-= float64 ; } options{
-    body
-= '0'
-    ;T= ""CRC32"";matchKey = char[] ; }	packet
-rootA {
-    // " ++ [128512]%N ++ runes_of_ascii " emoji
-    @lengthOf( //
-Z9_)
-    @rightPad('0' ) Packet calculatedFrom , }packet
-body
-    { match metadata
-as asx {
-    3 : Header 3: packetx	, [  10]
-:	Packet, """"
-// " ++ [27880; 37322]%N ++ runes_of_ascii "
-// @lengthOf(
-: pack
-,
-10  :
-    // packet A { u8 x, }
-    pack [  255 // `tick` ""quote"" 'q'
-, // `tick` ""quote"" 'q'
-""""
-    , 00 // a // b
-,""it's""] :
-x } ,
-}
-
-")).
-Eval vm_compute in ("<<<M98>>>" ++ check (runes_of_ascii "options { o =
-    ' ' ; lengthOf= ""it's"" string_= """ ++ [28040; 24687]%N ++ runes_of_ascii """	;i8i8 // c
-=  uint32 } packet Logon{	Pad	@lengthOf(
-    stringy),@rightPad (	'\x00'
-) Header stringy `a\` , T { match	a1
-    as Logon{  42 :
-chars }	, },stringy {
-zchar[ 7 // trailing space 
-] x_y_z, }, uint8x BodyLength
-, repeat zchar ,	@tag( 7 ) repeat // packet A { u8 x, }
-u64 u128`" ++ [28040; 24687; 31867; 22411]%N ++ runes_of_ascii "` // packet A { u8 x, }
-, }")).
-Eval vm_compute in ("<<<M108>>>" ++ check (runes_of_ascii "/// triple
-options  { Header = 65535
-    ; calculatedFrom =
-""x y"" trueish = true i8i8 = false metadata // trailing space 
-=	""" ++ [28040; 24687]%N ++ runes_of_ascii """ ;
-}
-")).
-Eval vm_compute in ("<<<M118>>>" ++ check (runes_of_ascii "packet body { Pad {a1`crlf
-line`
-    , zchar[ 007] a1 ,char[10 ] x_y_z  ,
-repeat
-zchar[ 1  ] metadata `u8 x,` , } , string  trueish
-,repeat uint8x u ,	@tag( /// triple
-007 ) calculatedFrom
-{repeat BodyLength
-`doc` ,
-    }/// triple
-, int64 lengthOf,/// triple
-@lengthOf(
-leftPad) @calculatedFrom( ""x y"" ) @calculatedFrom( // " ++ [27880; 37322]%N ++ runes_of_ascii "
-""\" ++ [233]%N ++ runes_of_ascii """ )  falsey a1 , }")).
-Eval vm_compute in ("<<<T118>>>" ++ terms [mkTok 35 "packet" 1 0 false; mkTok 42 "body" 1 7 false; mkTok 2 "{" 1 12 false; mkTok 42 "Pad" 1 14 false; mkTok 2 "{" 1 18 false; mkTok 42 "a1" 1 19 false; mkTok 43 (string_of_bytes [96; 99; 114; 108; 102; 13; 10; 108; 105; 110; 101; 96]%N) 1 21 false; mkTok 40 "," 3 4 false; mkTok 14 "zchar[" 3 6 false; mkTok 30 "007" 3 13 false; mkTok 13 "]" 3 16 false; mkTok 42 "a1" 3 18 false; mkTok 40 "," 3 21 false; mkTok 12 "char[" 3 22 false; mkTok 30 "10" 3 27 false; mkTok 13 "]" 3 30 false; mkTok 42 "x_y_z" 3 32 false; mkTok 40 "," 3 39 false; mkTok 36 "repeat" 4 0 false; mkTok 14 "zchar[" 5 0 false; mkTok 30 "1" 5 7 false; mkTok 13 "]" 5 10 false; mkTok 42 "metadata" 5 12 false; mkTok 43 "`u8 x,`" 5 21 false; mkTok 40 "," 5 29 false; mkTok 3 "}" 5 31 false; mkTok 40 "," 5 33 false; mkTok 15 "string" 5 35 false; mkTok 42 "trueish" 5 43 false; mkTok 40 "," 6 0 false; mkTok 36 "repeat" 6 1 false; mkTok 42 "uint8x" 6 8 false; mkTok 42 "u" 6 15 false; mkTok 40 "," 6 17 false; mkTok 9 "@tag(" 6 19 false; mkTok 44 "/// triple" 6 25 true; mkTok 30 "007" 7 0 false; mkTok 6 ")" 7 4 false; mkTok 42 "calculatedFrom" 7 6 false; mkTok 2 "{" 8 0 false; mkTok 36 "repeat" 8 1 false; mkTok 42 "BodyLength" 8 8 false; mkTok 43 "`doc`" 9 0 false; mkTok 40 "," 9 6 false; mkTok 3 "}" 10 4 false; mkTok 44 "/// triple" 10 5 true; mkTok 40 "," 11 0 false; mkTok 27 "int64" 11 2 false; mkTok 42 "lengthOf" 11 8 false; mkTok 40 "," 11 16 false; mkTok 44 "/// triple" 11 17 true; mkTok 7 "@lengthOf(" 12 0 false; mkTok 42 "leftPad" 13 0 false; mkTok 6 ")" 13 7 false; mkTok 5 "@calculatedFrom(" 13 9 false; mkTok 31 """x y""" 13 26 false; mkTok 6 ")" 13 32 false; mkTok 5 "@calculatedFrom(" 13 34 false; mkTok 44 (string_of_bytes [47; 47; 32; 230; 179; 168; 233; 135; 138]%N) 13 51 true; mkTok 31 (string_of_bytes [34; 92; 195; 169; 34]%N) 14 0 false; mkTok 6 ")" 14 5 false; mkTok 42 "falsey" 14 8 false; mkTok 42 "a1" 14 15 false; mkTok 40 "," 14 18 false; mkTok 3 "}" 14 20 false; mkTok 0 "<EOF>" 14 21 false] (mkPacket (mkPtok 35 "packet" 1 0 0) (Some (mkPtok 3 "}" 14 20 64)) [(DPacket (mkPacketDef (mkSpan (mkPtok 35 "packet" 1 0 0) (mkPtok 3 "}" 14 20 64)) None (mkPtok 35 "packet" 1 0 0) (mkPtok 42 "body" 1 7 1) (mkPtok 2 "{" 1 12 2) [(mkFieldWithAttr (mkSpan (mkPtok 42 "Pad" 1 14 3) (mkPtok 40 "," 5 33 26)) [] (InerObjectField (mkSpan (mkPtok 42 "Pad" 1 14 3) (mkPtok 40 "," 5 33 26)) None (InerObjectDecl (mkSpan (mkPtok 42 "Pad" 1 14 3) (mkPtok 3 "}" 5 31 25)) (mkPtok 42 "Pad" 1 14 3) (mkPtok 2 "{" 1 18 4) [(ObjectField (mkSpan (mkPtok 42 "a1" 1 19 5) (mkPtok 40 "," 3 4 7)) None (mkPtok 42 "a1" 1 19 5) None (Some (mkPtok 43 (string_of_bytes [96; 99; 114; 108; 102; 13; 10; 108; 105; 110; 101; 96]%N) 1 21 6)) (mkPtok 40 "," 3 4 7)); (MetaField (mkSpan (mkPtok 14 "zchar[" 3 6 8) (mkPtok 40 "," 3 21 12)) None (mkMetaDecl (mkSpan (mkPtok 14 "zchar[" 3 6 8) (mkPtok 40 "," 3 21 12)) (TyFixed (mkSpan (mkPtok 14 "zchar[" 3 6 8) (mkPtok 13 "]" 3 16 10)) (mkFixedString (mkSpan (mkPtok 14 "zchar[" 3 6 8) (mkPtok 13 "]" 3 16 10)) (mkPtok 14 "zchar[" 3 6 8) (mkPtok 30 "007" 3 13 9) (mkPtok 13 "]" 3 16 10))) (mkPtok 42 "a1" 3 18 11) None (mkPtok 40 "," 3 21 12))); (MetaField (mkSpan (mkPtok 12 "char[" 3 22 13) (mkPtok 40 "," 3 39 17)) None (mkMetaDecl (mkSpan (mkPtok 12 "char[" 3 22 13) (mkPtok 40 "," 3 39 17)) (TyFixed (mkSpan (mkPtok 12 "char[" 3 22 13) (mkPtok 13 "]" 3 30 15)) (mkFixedString (mkSpan (mkPtok 12 "char[" 3 22 13) (mkPtok 13 "]" 3 30 15)) (mkPtok 12 "char[" 3 22 13) (mkPtok 30 "10" 3 27 14) (mkPtok 13 "]" 3 30 15))) (mkPtok 42 "x_y_z" 3 32 16) None (mkPtok 40 "," 3 39 17))); (MetaField (mkSpan (mkPtok 36 "repeat" 4 0 18) (mkPtok 40 "," 5 29 24)) (Some (mkPtok 36 "repeat" 4 0 18)) (mkMetaDecl (mkSpan (mkPtok 14 "zchar[" 5 0 19) (mkPtok 40 "," 5 29 24)) (TyFixed (mkSpan (mkPtok 14 "zchar[" 5 0 19) (mkPtok 13 "]" 5 10 21)) (mkFixedString (mkSpan (mkPtok 14 "zchar[" 5 0 19) (mkPtok 13 "]" 5 10 21)) (mkPtok 14 "zchar[" 5 0 19) (mkPtok 30 "1" 5 7 20) (mkPtok 13 "]" 5 10 21))) (mkPtok 42 "metadata" 5 12 22) (Some (mkPtok 43 "`u8 x,`" 5 21 23)) (mkPtok 40 "," 5 29 24)))] (mkPtok 3 "}" 5 31 25)) (mkPtok 40 "," 5 33 26))); (mkFieldWithAttr (mkSpan (mkPtok 15 "string" 5 35 27) (mkPtok 40 "," 6 0 29)) [] (MetaField (mkSpan (mkPtok 15 "string" 5 35 27) (mkPtok 40 "," 6 0 29)) None (mkMetaDecl (mkSpan (mkPtok 15 "string" 5 35 27) (mkPtok 40 "," 6 0 29)) (TyDynamic (mkSpan (mkPtok 15 "string" 5 35 27) (mkPtok 15 "string" 5 35 27)) (mkDynamicString (mkSpan (mkPtok 15 "string" 5 35 27) (mkPtok 15 "string" 5 35 27)) (mkPtok 15 "string" 5 35 27))) (mkPtok 42 "trueish" 5 43 28) None (mkPtok 40 "," 6 0 29)))); (mkFieldWithAttr (mkSpan (mkPtok 36 "repeat" 6 1 30) (mkPtok 40 "," 6 17 33)) [] (ObjectField (mkSpan (mkPtok 36 "repeat" 6 1 30) (mkPtok 40 "," 6 17 33)) (Some (mkPtok 36 "repeat" 6 1 30)) (mkPtok 42 "uint8x" 6 8 31) (Some (mkPtok 42 "u" 6 15 32)) None (mkPtok 40 "," 6 17 33))); (mkFieldWithAttr (mkSpan (mkPtok 9 "@tag(" 6 19 34) (mkPtok 40 "," 11 0 46)) [(FATag (mkSpan (mkPtok 9 "@tag(" 6 19 34) (mkPtok 6 ")" 7 4 37)) (mkTagAttr (mkSpan (mkPtok 9 "@tag(" 6 19 34) (mkPtok 6 ")" 7 4 37)) (mkPtok 9 "@tag(" 6 19 34) (mkPtok 30 "007" 7 0 36) (mkPtok 6 ")" 7 4 37)))] (InerObjectField (mkSpan (mkPtok 42 "calculatedFrom" 7 6 38) (mkPtok 40 "," 11 0 46)) None (InerObjectDecl (mkSpan (mkPtok 42 "calculatedFrom" 7 6 38) (mkPtok 3 "}" 10 4 44)) (mkPtok 42 "calculatedFrom" 7 6 38) (mkPtok 2 "{" 8 0 39) [(ObjectField (mkSpan (mkPtok 36 "repeat" 8 1 40) (mkPtok 40 "," 9 6 43)) (Some (mkPtok 36 "repeat" 8 1 40)) (mkPtok 42 "BodyLength" 8 8 41) None (Some (mkPtok 43 "`doc`" 9 0 42)) (mkPtok 40 "," 9 6 43))] (mkPtok 3 "}" 10 4 44)) (mkPtok 40 "," 11 0 46))); (mkFieldWithAttr (mkSpan (mkPtok 27 "int64" 11 2 47) (mkPtok 40 "," 11 16 49)) [] (MetaField (mkSpan (mkPtok 27 "int64" 11 2 47) (mkPtok 40 "," 11 16 49)) None (mkMetaDecl (mkSpan (mkPtok 27 "int64" 11 2 47) (mkPtok 40 "," 11 16 49)) (TyBasic (mkSpan (mkPtok 27 "int64" 11 2 47) (mkPtok 27 "int64" 11 2 47)) (mkBasicType (mkSpan (mkPtok 27 "int64" 11 2 47) (mkPtok 27 "int64" 11 2 47)) (mkPtok 27 "int64" 11 2 47))) (mkPtok 42 "lengthOf" 11 8 48) None (mkPtok 40 "," 11 16 49)))); (mkFieldWithAttr (mkSpan (mkPtok 7 "@lengthOf(" 12 0 51) (mkPtok 40 "," 14 18 63)) [(FALengthOf (mkSpan (mkPtok 7 "@lengthOf(" 12 0 51) (mkPtok 6 ")" 13 7 53)) (mkLengthOf (mkSpan (mkPtok 7 "@lengthOf(" 12 0 51) (mkPtok 6 ")" 13 7 53)) (mkPtok 7 "@lengthOf(" 12 0 51) (mkPtok 42 "leftPad" 13 0 52) (mkPtok 6 ")" 13 7 53))); (FACalculatedFrom (mkSpan (mkPtok 5 "@calculatedFrom(" 13 9 54) (mkPtok 6 ")" 13 32 56)) (mkCalculatedFrom (mkSpan (mkPtok 5 "@calculatedFrom(" 13 9 54) (mkPtok 6 ")" 13 32 56)) (mkPtok 5 "@calculatedFrom(" 13 9 54) (mkPtok 31 """x y""" 13 26 55) (mkPtok 6 ")" 13 32 56))); (FACalculatedFrom (mkSpan (mkPtok 5 "@calculatedFrom(" 13 34 57) (mkPtok 6 ")" 14 5 60)) (mkCalculatedFrom (mkSpan (mkPtok 5 "@calculatedFrom(" 13 34 57) (mkPtok 6 ")" 14 5 60)) (mkPtok 5 "@calculatedFrom(" 13 34 57) (mkPtok 31 (string_of_bytes [34; 92; 195; 169; 34]%N) 14 0 59) (mkPtok 6 ")" 14 5 60)))] (ObjectField (mkSpan (mkPtok 42 "falsey" 14 8 61) (mkPtok 40 "," 14 18 63)) None (mkPtok 42 "falsey" 14 8 61) (Some (mkPtok 42 "a1" 14 15 62)) None (mkPtok 40 "," 14 18 63)))] (mkPtok 3 "}" 14 20 64)))])).
-Eval vm_compute in ("<<<M128>>>" ++ check (runes_of_ascii "
-packet crc	{ u32 T@lengthOf( x ) `crlf
-line` ,// a // b
-}")).
-Eval vm_compute in ("<<<M138>>>" ++ check (runes_of_ascii "
-
-// c
-")).
-Eval vm_compute in ("<<<M148>>>" ++ check (runes_of_ascii "options // `tick` ""quote"" 'q'
-{ repeatCount = 3/// triple
-}")).
-Eval vm_compute in ("<<<M158>>>" ++ check (runes_of_ascii "packet  float{ }
-")).
-Eval vm_compute in ("<<<M168>>>" ++ check (runes_of_ascii "// trailing space 
-packet
-Header { // c
-repeat  char[] MetaDataX , }")).
-Eval vm_compute in ("<<<M178>>>" ++ check (runes_of_ascii "packet options1 {  }
-
-")).
-Eval vm_compute in ("<<<M188>>>" ++ check (runes_of_ascii "MetaData a1 { Foo body
-`{ , }`
-    , int32
-int`` ,i32 a1 `" ++ [28040; 24687; 31867; 22411]%N ++ runes_of_ascii "`
-, int8 msg_type `` , }
-
-")).
-Eval vm_compute in ("<<<T188>>>" ++ terms [mkTok 37 "MetaData" 1 0 false; mkTok 42 "a1" 1 9 false; mkTok 2 "{" 1 12 false; mkTok 42 "Foo" 1 14 false; mkTok 42 "body" 1 18 false; mkTok 43 "`{ , }`" 2 0 false; mkTok 40 "," 3 4 false; mkTok 26 "int32" 3 6 false; mkTok 42 "int" 4 0 false; mkTok 43 "``" 4 3 false; mkTok 40 "," 4 6 false; mkTok 26 "i32" 4 7 false; mkTok 42 "a1" 4 11 false; mkTok 43 (string_of_bytes [96; 230; 182; 136; 230; 129; 175; 231; 177; 187; 229; 158; 139; 96]%N) 4 14 false; mkTok 40 "," 5 0 false; mkTok 24 "int8" 5 2 false; mkTok 42 "msg_type" 5 7 false; mkTok 43 "``" 5 16 false; mkTok 40 "," 5 19 false; mkTok 3 "}" 5 21 false; mkTok 0 "<EOF>" 7 0 false] (mkPacket (mkPtok 37 "MetaData" 1 0 0) (Some (mkPtok 3 "}" 5 21 19)) [(DMeta (mkMetaDef (mkSpan (mkPtok 37 "MetaData" 1 0 0) (mkPtok 3 "}" 5 21 19)) (mkPtok 37 "MetaData" 1 0 0) (mkPtok 42 "a1" 1 9 1) (mkPtok 2 "{" 1 12 2) [(MIRef (mkRefMetaDecl (mkSpan (mkPtok 42 "Foo" 1 14 3) (mkPtok 40 "," 3 4 6)) (mkPtok 42 "Foo" 1 14 3) (mkPtok 42 "body" 1 18 4) (Some (mkPtok 43 "`{ , }`" 2 0 5)) (mkPtok 40 "," 3 4 6))); (MIDecl (mkMetaDecl (mkSpan (mkPtok 26 "int32" 3 6 7) (mkPtok 40 "," 4 6 10)) (TyBasic (mkSpan (mkPtok 26 "int32" 3 6 7) (mkPtok 26 "int32" 3 6 7)) (mkBasicType (mkSpan (mkPtok 26 "int32" 3 6 7) (mkPtok 26 "int32" 3 6 7)) (mkPtok 26 "int32" 3 6 7))) (mkPtok 42 "int" 4 0 8) (Some (mkPtok 43 "``" 4 3 9)) (mkPtok 40 "," 4 6 10))); (MIDecl (mkMetaDecl (mkSpan (mkPtok 26 "i32" 4 7 11) (mkPtok 40 "," 5 0 14)) (TyBasic (mkSpan (mkPtok 26 "i32" 4 7 11) (mkPtok 26 "i32" 4 7 11)) (mkBasicType (mkSpan (mkPtok 26 "i32" 4 7 11) (mkPtok 26 "i32" 4 7 11)) (mkPtok 26 "i32" 4 7 11))) (mkPtok 42 "a1" 4 11 12) (Some (mkPtok 43 (string_of_bytes [96; 230; 182; 136; 230; 129; 175; 231; 177; 187; 229; 158; 139; 96]%N) 4 14 13)) (mkPtok 40 "," 5 0 14))); (MIDecl (mkMetaDecl (mkSpan (mkPtok 24 "int8" 5 2 15) (mkPtok 40 "," 5 19 18)) (TyBasic (mkSpan (mkPtok 24 "int8" 5 2 15) (mkPtok 24 "int8" 5 2 15)) (mkBasicType (mkSpan (mkPtok 24 "int8" 5 2 15) (mkPtok 24 "int8" 5 2 15)) (mkPtok 24 "int8" 5 2 15))) (mkPtok 42 "msg_type" 5 7 16) (Some (mkPtok 43 "``" 5 16 17)) (mkPtok 40 "," 5 19 18)))] (mkPtok 3 "}" 5 21 19)))])).
-Eval vm_compute in ("<<<M198>>>" ++ check (runes_of_ascii "packet x
-{ repeat
-    string_
-    { repeat asx	Foo
-    /// triple
-    ,int16 i8i8 , char[] matchKey ,
-// @lengthOf(
-// trailing space 
-match calculatedFrom as // a // b
-roots  { 3
-: x_y_z , }
-    , }
-, @lengthOf(x ) repeat o `say ""hi""`
-    ,//	t
-char[] string_	`" ++ [28040; 24687; 31867; 22411]%N ++ runes_of_ascii "`
-, @lengthOf( f32a )	match
-    Pad as
-    A //	t
-{ ""a	b"": u128 , [""\" ++ [233]%N ++ runes_of_ascii """ ,
-65535
-    , 255
-,""CRC32""
-,
-1 ]
-    : i8i8
-0123456789 : falsey //	t
-, } , }packet zchar { }
-")).
-Eval vm_compute in ("<<<M208>>>" ++ check (runes_of_ascii "packet _x{
-    u ,@lengthOf( len)
-    match f32a as
-    Pad{""packet"": metadata,
-""CRC32"":x_y_z[ ""abc"" , ""{,}"" ] : Logon , }
-    // c
-    , zchar[ 7  ]	a1  ,
-    @tag( 65535 ) @tag(
-0123456789
-    )
-    //x
-    @lengthOf(
-asx ) repeat
-i16 // @lengthOf(
-tag `{ , }` // `tick` ""quote"" 'q'
-,
-    @leftPad	(
-'\x00' ) match i64_ as x { 0 :crc , [
-//	t
-// trailing space 
-""// no comment"" ] : uint8x ,
-    42
-// a // b
-// trailing space 
-:  string_	, 007 : trueish , [10 ]// " ++ [128512]%N ++ runes_of_ascii " emoji
-: rootA
-""" ++ [28040; 24687]%N ++ runes_of_ascii """
-    : // trailing space 
-len , } //
-, @rightPad (
-'\x00' // trailing space 
-) @tag(
-    //
-    00 ) @calculatedFrom( """ ++ [233]%N ++ runes_of_ascii "t" ++ [233]%N ++ runes_of_ascii """ ) // c
-char[]float
-@calculatedFrom(	""\n"" ),repeat f32 trueish `crlf
-line` ,} // @lengthOf(")).
-Eval vm_compute in ("<<<M218>>>" ++ check (runes_of_ascii "packet _x
-    {repeat
-u8x {
-    repeat pack
-    body,
-    } ,
-@calculatedFrom( ""x y"" ) A { match msg_type as f32a {4294967296
-    : crc 1
-// c
-/// triple
-: uint8x , // a // b
-[ 255, 0
-    ] : // " ++ [27880; 37322]%N ++ runes_of_ascii "
-pack , [7 ,
-// `tick` ""quote"" 'q'
-// packet A { u8 x, }
-00 ] :	roots , [ 255
-    ]
-:	rootA
-    , } ,
-    char packetx
-@calculatedFrom( ""{,}""
-    // trailing space 
-    )
-, } ,
-    match
-    BodyLength //
-as u8x {""a	b"" : u,
-    00 // @lengthOf(
-: msg_type,// " ++ [27880; 37322]%N ++ runes_of_ascii "
-}, match metadata as As{[ 0123456789, 3 ,// a // b
-0
-, ""it's""
-, ""it's"" , ""1"" ] :
-int
-,
-    ""packet"": leftPad}, char[] Pad `say ""hi""` , }
-
-")).
-Eval vm_compute in ("<<<M228>>>" ++ check (runes_of_ascii "MetaData _x
-{As	f32a `doc` // " ++ [128512]%N ++ runes_of_ascii " emoji
-, }
-packet// @lengthOf(
-x {	zchar[  255
-    ]	calculatedFrom  ,string_@calculatedFrom( ""a	b"" ) , @calculatedFrom(""" ++ [128512]%N ++ runes_of_ascii """)@tag(
-4294967296 )@calculatedFrom(""a	b""
-) char[ 0 ]i64_
-`" ++ [28040; 24687; 31867; 22411]%N ++ runes_of_ascii "` ,
-    @leftPad(' '  ) repeat
-// c
-// c
-MetaDataX
-    ,}")).
-Eval vm_compute in ("<<<M238>>>" ++ check (runes_of_ascii "packet float { }	packet
-body
-    { }
-//x
-")).
-Eval vm_compute in ("<<<M248>>>" ++ check (runes_of_ascii "packet
-//
-// " ++ [128512]%N ++ runes_of_ascii " emoji
-body	{ @calculatedFrom(""" ++ [233]%N ++ runes_of_ascii "t" ++ [233]%N ++ runes_of_ascii """
-) body {o@calculatedFrom(  """ ++ [233]%N ++ runes_of_ascii "t" ++ [233]%N ++ runes_of_ascii """ ), }
-,  char  i8i8 @lengthOf(	int ) `doc` ,	@rightPad ( )
-char[0 ] tag@lengthOf( repeatCount ), @calculatedFrom("""" ) x
-@calculatedFrom(""" ++ [28040; 24687]%N ++ runes_of_ascii """ )
-, @calculatedFrom( """"
-)// c
-Packet `u8 x,`
-    , // trailing space 
-string x_y_z, string_ charz
-    `doc` ,	match packetx as
-string_ {
-    00  : asx , [  ""\n""] // " ++ [128512]%N ++ runes_of_ascii " emoji
-: float , [""" ++ [28040; 24687]%N ++ runes_of_ascii """
-// @lengthOf(
-/// triple
-, 3
-] :
-    Foo, [ 0123456789 ,  ""1""
-] : o	""\" ++ [233]%N ++ runes_of_ascii """
-    : _x  ,  0123456789
-: matchKey
-} , @rightPad (
-' ')stringy
-    { match calculatedFrom as o	{// c
-1
-:
-x_y_z
-, 007:pack
-    ,3 : asx
-    // trailing space 
-    , // " ++ [27880; 37322]%N ++ runes_of_ascii "
-} ,
-} , @calculatedFrom( """"
-    ) @tag(  4294967296 ) repeat i64// packet A { u8 x, }
-chars  ,	} packet roots { }root
-packet	rootA { @tag( 255 ) pack
-`it's`, @lengthOf( f32a ) @tag(
-    // a // b
-    1 )
-    @tag(
-    7)
-    // " ++ [128512]%N ++ runes_of_ascii " emoji
-    Foo	@calculatedFrom(
-//x
-//
-""" ++ [128512]%N ++ runes_of_ascii """ ) , repeat calculatedFrom { string leftPad
-    `doc` ,repeat
-crc{ pack @calculatedFrom( ""\" ++ [233]%N ++ runes_of_ascii """) ,
-    } , }, string_ { match
-i64_ as u8x  { 0 :
-    _x
-, } ,
-}	, @lengthOf( u128
-    ) // trailing space 
-match asx as charz
-{ [ """" ,	4294967296 ] : A,// trailing space 
-1 : options1 , 4294967296 :  pack 42 :charz
-, [ ""`tick`"" , // a // b
-""x y"" /// triple
-, // " ++ [27880; 37322]%N ++ runes_of_ascii "
-255
-] // packet A { u8 x, }
-: stringy ,} ,
-@rightPad (' ' ) @lengthOf(// c
-Packet
-    ) repeat uint8x trueish ,
-} MetaData i8i8
-    { zchar[
-10]Z9_ , zchar[ 0 ] Header
-    `a\`, stringy roots // " ++ [27880; 37322]%N ++ runes_of_ascii "
-,}
-    packet options1 // c
-{
-    char[10
-] Pad @calculatedFrom( ""\n"") `// not a comment` , roots , @calculatedFrom( ""x y""
-)	zchar, @rightPad ( '0' )
-    repeat
 string
-//x
+    tag ,
+msg_type
+chars // a // b
+, i8 uint8x, }")).
+Eval vm_compute in ("<<<M18>>>" ++ check (runes_of_ascii "MetaData zchar
+{ uint64 Z9_, As f32a  `" ++ [28040; 24687; 31867; 22411]%N ++ runes_of_ascii "` // " ++ [128512]%N ++ runes_of_ascii " emoji
+, char[ 10 ]	options1 //	t
+`tab	here` , rootA trueish //x
+``, i32 Foo `{ , }` ,}
+")).
+Eval vm_compute in ("<<<M28>>>" ++ check (runes_of_ascii "options {
+    i8i8 = ""1"" u=
+    ""a	b"" //x
+;a1=zchar[ 00
+    // @lengthOf(
+    ] ;
+    // c
+    o= ""a	b""
+;  float
+= char[]// a // b
+;
+} root packet chars{
+}packet body // `tick` ""quote"" 'q'
+{ repeat u8x {int16 zchar ,char[
+1
+] o `" ++ [233]%N ++ runes_of_ascii "`	,
+    },}
+    packet  BodyLength {
+    // c
+    @rightPad
+    ('0' )u16 u8x@calculatedFrom( ""// no comment"" ),
+    @tag(
+1 )
+// a // b
+// " ++ [128512]%N ++ runes_of_ascii " emoji
+match i8i8 as
+u128 { 007 : len ,	""" ++ [128512]%N ++ runes_of_ascii """: u128
+    ,
+    } , repeat
+    repeatCount// " ++ [128512]%N ++ runes_of_ascii " emoji
+`u8 x,` , @calculatedFrom( // c
+""x y""
+)falsey {
+char[ 255]  crc , Logon
+`two words`  ,
+roots options1
+    , }	,
+} root packet
+calculatedFrom
+    { }
+")).
+Eval vm_compute in ("<<<M38>>>" ++ check (runes_of_ascii "packet leftPad { @leftPad ( ' ')
+    // a // b
+    @calculatedFrom(
+""abc"" )  @rightPad ('0'  )  repeat uint64
+// `tick` ""quote"" 'q'
+// @lengthOf(
+x ,} // " ++ [27880; 37322]%N ++ runes_of_ascii "
+packet x_y_z { int16 // @lengthOf(
+crc @lengthOf( f32a
+) `
+`,
+    @lengthOf(	a1
+) char[ 0123456789 ] float `// not a comment` , int32 T @calculatedFrom( ""\" ++ [233]%N ++ runes_of_ascii """	) , }
+")).
+Eval vm_compute in ("<<<M48>>>" ++ check (runes_of_ascii "// c
+MetaData Packet { i8i8 repeatCount , calculatedFrom
+falsey `
+` // 50% %s
+, float32
+tag//
+,string Packet `line1
+line2`
+    ,	}
+// c
+")).
+Eval vm_compute in ("<<<T48>>>" ++ terms [mkTok 44 "// c" 1 0 true; mkTok 37 "MetaData" 2 0 false; mkTok 42 "Packet" 2 9 false; mkTok 2 "{" 2 16 false; mkTok 42 "i8i8" 2 18 false; mkTok 42 "repeatCount" 2 23 false; mkTok 40 "," 2 35 false; mkTok 42 "calculatedFrom" 2 37 false; mkTok 42 "falsey" 3 0 false; mkTok 43 (string_of_bytes [96; 10; 96]%N) 3 7 false; mkTok 44 "// 50% %s" 4 2 true; mkTok 40 "," 5 0 false; mkTok 28 "float32" 5 2 false; mkTok 42 "tag" 6 0 false; mkTok 44 "//" 6 3 true; mkTok 40 "," 7 0 false; mkTok 15 "string" 7 1 false; mkTok 42 "Packet" 7 8 false; mkTok 43 (string_of_bytes [96; 108; 105; 110; 101; 49; 10; 108; 105; 110; 101; 50; 96]%N) 7 15 false; mkTok 40 "," 9 4 false; mkTok 3 "}" 9 6 false; mkTok 44 "// c" 10 0 true; mkTok 0 "<EOF>" 11 0 false] (mkPacket (mkPtok 37 "MetaData" 2 0 1) (Some (mkPtok 3 "}" 9 6 20)) [(DMeta (mkMetaDef (mkSpan (mkPtok 37 "MetaData" 2 0 1) (mkPtok 3 "}" 9 6 20)) (mkPtok 37 "MetaData" 2 0 1) (mkPtok 42 "Packet" 2 9 2) (mkPtok 2 "{" 2 16 3) [(MIRef (mkRefMetaDecl (mkSpan (mkPtok 42 "i8i8" 2 18 4) (mkPtok 40 "," 2 35 6)) (mkPtok 42 "i8i8" 2 18 4) (mkPtok 42 "repeatCount" 2 23 5) None (mkPtok 40 "," 2 35 6))); (MIRef (mkRefMetaDecl (mkSpan (mkPtok 42 "calculatedFrom" 2 37 7) (mkPtok 40 "," 5 0 11)) (mkPtok 42 "calculatedFrom" 2 37 7) (mkPtok 42 "falsey" 3 0 8) (Some (mkPtok 43 (string_of_bytes [96; 10; 96]%N) 3 7 9)) (mkPtok 40 "," 5 0 11))); (MIDecl (mkMetaDecl (mkSpan (mkPtok 28 "float32" 5 2 12) (mkPtok 40 "," 7 0 15)) (TyBasic (mkSpan (mkPtok 28 "float32" 5 2 12) (mkPtok 28 "float32" 5 2 12)) (mkBasicType (mkSpan (mkPtok 28 "float32" 5 2 12) (mkPtok 28 "float32" 5 2 12)) (mkPtok 28 "float32" 5 2 12))) (mkPtok 42 "tag" 6 0 13) None (mkPtok 40 "," 7 0 15))); (MIDecl (mkMetaDecl (mkSpan (mkPtok 15 "string" 7 1 16) (mkPtok 40 "," 9 4 19)) (TyDynamic (mkSpan (mkPtok 15 "string" 7 1 16) (mkPtok 15 "string" 7 1 16)) (mkDynamicString (mkSpan (mkPtok 15 "string" 7 1 16) (mkPtok 15 "string" 7 1 16)) (mkPtok 15 "string" 7 1 16))) (mkPtok 42 "Packet" 7 8 17) (Some (mkPtok 43 (string_of_bytes [96; 108; 105; 110; 101; 49; 10; 108; 105; 110; 101; 50; 96]%N) 7 15 18)) (mkPtok 40 "," 9 4 19)))] (mkPtok 3 "}" 9 6 20)))])).
+Eval vm_compute in ("<<<M58>>>" ++ check (@nil rune)).
+Eval vm_compute in ("<<<M68>>>" ++ check (runes_of_ascii "MetaData charz { } options { crc  =  ""a	b"" ; } packet	falsey
+    { // trailing space 
+} packet falsey //	t
+{@lengthOf( uint8x
+) uint32 asx, }
+root packet
+crc {
+}
+")).
+Eval vm_compute in ("<<<M78>>>" ++ check (runes_of_ascii "packet
+Foo
+{repeat int16 u8x,
 //
-roots`say ""hi""` ,}
+// packet A { u8 x, }
+}	options {
+// `tick` ""quote"" 'q'
+//
+x =// packet A { u8 x, }
+0123456789 ; BodyLength
+    = zchar[	00 ] f32a =false
+    ;
+    // 50% %s
+    stringy = int32}
+    packet
+zchar {}
+")).
+Eval vm_compute in ("<<<M88>>>" ++ check (runes_of_ascii "MetaData uint8x { }
+")).
+Eval vm_compute in ("<<<M98>>>" ++ check (runes_of_ascii "root
+packet	uint8x {// " ++ [27880; 37322]%N ++ runes_of_ascii "
+MetaDataX// " ++ [27880; 37322]%N ++ runes_of_ascii "
+`doc`,
+char
+A  `line1
+line2` , match BodyLength as roots
+    {
+    [ ""// no comment"" , 4294967296,
+""" ++ [128512]%N ++ runes_of_ascii """
+] : falsey
+, // @lengthOf(
+""" ++ [233]%N ++ runes_of_ascii "t" ++ [233]%N ++ runes_of_ascii """
+:o
+[  7	] : o, 65535 :int ,
+    3 :	int, 65535
+:
+    Foo , // packet A { u8 x, }
+} , @lengthOf( MetaDataX
+// c
+// @lengthOf(
+)
+    repeat Packet  chars	, @calculatedFrom( ""abc""
+)@lengthOf(
+    uint8x )
+@leftPad(
+)
+    // " ++ [27880; 37322]%N ++ runes_of_ascii "
+    i8 x ,
+    repeat
+As{ _x	@calculatedFrom(
+    // @lengthOf(
+    ""x y"")`100% of %d` , i16
+    options1 @lengthOf(
+o ) , repeat string i8i8 ,
+    char[ 255 ]packetx `a\` ,} ,	@leftPad( // 50% %s
+'\x00' )u32 u128
+@lengthOf(msg_type )
+    `// not a comment` , zchar @lengthOf(crc
+)
+, char[0
+    ]
+a1, @leftPad
+(' ') char[ 4294967296 ]	int , }
+")).
+Eval vm_compute in ("<<<M108>>>" ++ check (runes_of_ascii "root packet	repeatCount {
+    // @lengthOf(
+    @tag( 42 )
+int64 lengthOf , }
+")).
+Eval vm_compute in ("<<<M118>>>" ++ check (runes_of_ascii "options
+{ u // packet A { u8 x, }
+=// 50% %s
+int32 packetx	= ""`tick`"" ;
+    matchKey= // trailing space 
+'0'As = 3
+// packet A { u8 x, }
+//x
+; Packet=true; } root packet
+tag { // @lengthOf(
+u64 stringy , repeat options1
+{ zchar[ 4294967296
+] f32a `` , match tag as
+    //
+    options1 {
+    10 : A
+// c
+// c
+,  007
+    : Pad , 0123456789
+    : calculatedFrom 7 :	stringy ,
+[ // 50% %s
+""a\""b"" ,// " ++ [27880; 37322]%N ++ runes_of_ascii "
+0123456789 ] : options1 , 3
+:
+u8x,
+    // packet A { u8 x, }
+    } ,} ,
+    }packet len {	@calculatedFrom(
+// packet A { u8 x, }
+// `tick` ""quote"" 'q'
+""" ++ [233]%N ++ runes_of_ascii "t" ++ [233]%N ++ runes_of_ascii """ )i8
+// `tick` ""quote"" 'q'
+//	t
+repeatCount @lengthOf(
+// `tick` ""quote"" 'q'
+// " ++ [128512]%N ++ runes_of_ascii " emoji
+roots ) ,
+int32 i64_//
+@calculatedFrom( ""`tick`"" )  ,
+    @rightPad ( ' ' ) repeat
+char[] u8x// " ++ [128512]%N ++ runes_of_ascii " emoji
+,	@rightPad('\x00'	) leftPad{ match lengthOf // c
+as charz { ""1"" :tag  ""// no comment""	:
+x, [
+    """ ++ [233]%N ++ runes_of_ascii "t" ++ [233]%N ++ runes_of_ascii """ ,""CRC32"" ] :	pack 3: charz ,
+}, } , } options
+    {
+}
+    MetaData
+matchKey {uint64 repeatCount,  roots
+x_y_z
+`say ""hi""`
+, roots As , A crc , uint64 f32a // @lengthOf(
+, }
+")).
+Eval vm_compute in ("<<<T118>>>" ++ terms [mkTok 1 "options" 1 0 false; mkTok 2 "{" 2 0 false; mkTok 42 "u" 2 2 false; mkTok 44 "// packet A { u8 x, }" 2 4 true; mkTok 4 "=" 3 0 false; mkTok 44 "// 50% %s" 3 1 true; mkTok 26 "int32" 4 0 false; mkTok 42 "packetx" 4 6 false; mkTok 4 "=" 4 14 false; mkTok 31 """`tick`""" 4 16 false; mkTok 41 ";" 4 25 false; mkTok 42 "matchKey" 5 4 false; mkTok 4 "=" 5 12 false; mkTok 44 "// trailing space " 5 14 true; mkTok 33 "'0'" 6 0 false; mkTok 42 "As" 6 3 false; mkTok 4 "=" 6 6 false; mkTok 30 "3" 6 8 false; mkTok 44 "// packet A { u8 x, }" 7 0 true; mkTok 44 "//x" 8 0 true; mkTok 41 ";" 9 0 false; mkTok 42 "Packet" 9 2 false; mkTok 4 "=" 9 8 false; mkTok 10 "true" 9 9 false; mkTok 41 ";" 9 13 false; mkTok 3 "}" 9 15 false; mkTok 34 "root" 9 17 false; mkTok 35 "packet" 9 22 false; mkTok 42 "tag" 10 0 false; mkTok 2 "{" 10 4 false; mkTok 44 "// @lengthOf(" 10 6 true; mkTok 23 "u64" 11 0 false; mkTok 42 "stringy" 11 4 false; mkTok 40 "," 11 12 false; mkTok 36 "repeat" 11 14 false; mkTok 42 "options1" 11 21 false; mkTok 2 "{" 12 0 false; mkTok 14 "zchar[" 12 2 false; mkTok 30 "4294967296" 12 9 false; mkTok 13 "]" 13 0 false; mkTok 42 "f32a" 13 2 false; mkTok 43 "``" 13 7 false; mkTok 40 "," 13 10 false; mkTok 38 "match" 13 12 false; mkTok 42 "tag" 13 18 false; mkTok 17 "as" 13 22 false; mkTok 44 "//" 14 4 true; mkTok 42 "options1" 15 4 false; mkTok 2 "{" 15 13 false; mkTok 30 "10" 16 4 false; mkTok 39 ":" 16 7 false; mkTok 42 "A" 16 9 false; mkTok 44 "// c" 17 0 true; mkTok 44 "// c" 18 0 true; mkTok 40 "," 19 0 false; mkTok 30 "007" 19 3 false; mkTok 39 ":" 20 4 false; mkTok 42 "Pad" 20 6 false; mkTok 40 "," 20 10 false; mkTok 30 "0123456789" 20 12 false; mkTok 39 ":" 21 4 false; mkTok 42 "calculatedFrom" 21 6 false; mkTok 30 "7" 21 21 false; mkTok 39 ":" 21 23 false; mkTok 42 "stringy" 21 25 false; mkTok 40 "," 21 33 false; mkTok 18 "[" 22 0 false; mkTok 44 "// 50% %s" 22 2 true; mkTok 31 """a\""b""" 23 0 false; mkTok 40 "," 23 7 false; mkTok 44 (string_of_bytes [47; 47; 32; 230; 179; 168; 233; 135; 138]%N) 23 8 true; mkTok 30 "0123456789" 24 0 false; mkTok 13 "]" 24 11 false; mkTok 39 ":" 24 13 false; mkTok 42 "options1" 24 15 false; mkTok 40 "," 24 24 false; mkTok 30 "3" 24 26 false; mkTok 39 ":" 25 0 false; mkTok 42 "u8x" 26 0 false; mkTok 40 "," 26 3 false; mkTok 44 "// packet A { u8 x, }" 27 4 true; mkTok 3 "}" 28 4 false; mkTok 40 "," 28 6 false; mkTok 3 "}" 28 7 false; mkTok 40 "," 28 9 false; mkTok 3 "}" 29 4 false; mkTok 35 "packet" 29 5 false; mkTok 42 "len" 29 12 false; mkTok 2 "{" 29 16 false; mkTok 5 "@calculatedFrom(" 29 18 false; mkTok 44 "// packet A { u8 x, }" 30 0 true; mkTok 44 "// `tick` ""quote"" 'q'" 31 0 true; mkTok 31 (string_of_bytes [34; 195; 169; 116; 195; 169; 34]%N) 32 0 false; mkTok 6 ")" 32 6 false; mkTok 24 "i8" 32 7 false; mkTok 44 "// `tick` ""quote"" 'q'" 33 0 true; mkTok 44 (string_of_bytes [47; 47; 9; 116]%N) 34 0 true; mkTok 42 "repeatCount" 35 0 false; mkTok 7 "@lengthOf(" 35 12 false; mkTok 44 "// `tick` ""quote"" 'q'" 36 0 true; mkTok 44 (string_of_bytes [47; 47; 32; 240; 159; 152; 128; 32; 101; 109; 111; 106; 105]%N) 37 0 true; mkTok 42 "roots" 38 0 false; mkTok 6 ")" 38 6 false; mkTok 40 "," 38 8 false; mkTok 26 "int32" 39 0 false; mkTok 42 "i64_" 39 6 false; mkTok 44 "//" 39 10 true; mkTok 5 "@calculatedFrom(" 40 0 false; mkTok 31 """`tick`""" 40 17 false; mkTok 6 ")" 40 26 false; mkTok 40 "," 40 29 false; mkTok 32 "@rightPad" 41 4 false; mkTok 8 "(" 41 14 false; mkTok 33 "' '" 41 16 false; mkTok 6 ")" 41 20 false; mkTok 36 "repeat" 41 22 false; mkTok 16 "char[]" 42 0 false; mkTok 42 "u8x" 42 7 false; mkTok 44 (string_of_bytes [47; 47; 32; 240; 159; 152; 128; 32; 101; 109; 111; 106; 105]%N) 42 10 true; mkTok 40 "," 43 0 false; mkTok 32 "@rightPad" 43 2 false; mkTok 8 "(" 43 11 false; mkTok 33 "'\x00'" 43 12 false; mkTok 6 ")" 43 19 false; mkTok 42 "leftPad" 43 21 false; mkTok 2 "{" 43 28 false; mkTok 38 "match" 43 30 false; mkTok 42 "lengthOf" 43 36 false; mkTok 44 "// c" 43 45 true; mkTok 17 "as" 44 0 false; mkTok 42 "charz" 44 3 false; mkTok 2 "{" 44 9 false; mkTok 31 """1""" 44 11 false; mkTok 39 ":" 44 15 false; mkTok 42 "tag" 44 16 false; mkTok 31 """// no comment""" 44 21 false; mkTok 39 ":" 44 37 false; mkTok 42 "x" 45 0 false; mkTok 40 "," 45 1 false; mkTok 18 "[" 45 3 false; mkTok 31 (string_of_bytes [34; 195; 169; 116; 195; 169; 34]%N) 46 4 false; mkTok 40 "," 46 10 false; mkTok 31 """CRC32""" 46 11 false; mkTok 13 "]" 46 19 false; mkTok 39 ":" 46 21 false; mkTok 42 "pack" 46 23 false; mkTok 30 "3" 46 28 false; mkTok 39 ":" 46 29 false; mkTok 42 "charz" 46 31 false; mkTok 40 "," 46 37 false; mkTok 3 "}" 47 0 false; mkTok 40 "," 47 1 false; mkTok 3 "}" 47 3 false; mkTok 40 "," 47 5 false; mkTok 3 "}" 47 7 false; mkTok 1 "options" 47 9 false; mkTok 2 "{" 48 4 false; mkTok 3 "}" 49 0 false; mkTok 37 "MetaData" 50 4 false; mkTok 42 "matchKey" 51 0 false; mkTok 2 "{" 51 9 false; mkTok 23 "uint64" 51 10 false; mkTok 42 "repeatCount" 51 17 false; mkTok 40 "," 51 28 false; mkTok 42 "roots" 51 31 false; mkTok 42 "x_y_z" 52 0 false; mkTok 43 "`say ""hi""`" 53 0 false; mkTok 40 "," 54 0 false; mkTok 42 "roots" 54 2 false; mkTok 42 "As" 54 8 false; mkTok 40 "," 54 11 false; mkTok 42 "A" 54 13 false; mkTok 42 "crc" 54 15 false; mkTok 40 "," 54 19 false; mkTok 23 "uint64" 54 21 false; mkTok 42 "f32a" 54 28 false; mkTok 44 "// @lengthOf(" 54 33 true; mkTok 40 "," 55 0 false; mkTok 3 "}" 55 2 false; mkTok 0 "<EOF>" 56 0 false] (mkPacket (mkPtok 1 "options" 1 0 0) (Some (mkPtok 3 "}" 55 2 178)) [(DOption (mkOptionDef (mkSpan (mkPtok 1 "options" 1 0 0) (mkPtok 3 "}" 9 15 25)) (mkPtok 1 "options" 1 0 0) (mkPtok 2 "{" 2 0 1) [(mkOptionDecl (mkSpan (mkPtok 42 "u" 2 2 2) (mkPtok 26 "int32" 4 0 6)) (mkPtok 42 "u" 2 2 2) (mkPtok 4 "=" 3 0 4) (VType (mkSpan (mkPtok 26 "int32" 4 0 6) (mkPtok 26 "int32" 4 0 6)) (TyBasic (mkSpan (mkPtok 26 "int32" 4 0 6) (mkPtok 26 "int32" 4 0 6)) (mkBasicType (mkSpan (mkPtok 26 "int32" 4 0 6) (mkPtok 26 "int32" 4 0 6)) (mkPtok 26 "int32" 4 0 6)))) None); (mkOptionDecl (mkSpan (mkPtok 42 "packetx" 4 6 7) (mkPtok 41 ";" 4 25 10)) (mkPtok 42 "packetx" 4 6 7) (mkPtok 4 "=" 4 14 8) (VString (mkSpan (mkPtok 31 """`tick`""" 4 16 9) (mkPtok 31 """`tick`""" 4 16 9)) (mkPtok 31 """`tick`""" 4 16 9)) (Some (mkPtok 41 ";" 4 25 10))); (mkOptionDecl (mkSpan (mkPtok 42 "matchKey" 5 4 11) (mkPtok 33 "'0'" 6 0 14)) (mkPtok 42 "matchKey" 5 4 11) (mkPtok 4 "=" 5 12 12) (VPaddingChar (mkSpan (mkPtok 33 "'0'" 6 0 14) (mkPtok 33 "'0'" 6 0 14)) (mkPtok 33 "'0'" 6 0 14)) None); (mkOptionDecl (mkSpan (mkPtok 42 "As" 6 3 15) (mkPtok 41 ";" 9 0 20)) (mkPtok 42 "As" 6 3 15) (mkPtok 4 "=" 6 6 16) (VDigits (mkSpan (mkPtok 30 "3" 6 8 17) (mkPtok 30 "3" 6 8 17)) (mkPtok 30 "3" 6 8 17)) (Some (mkPtok 41 ";" 9 0 20))); (mkOptionDecl (mkSpan (mkPtok 42 "Packet" 9 2 21) (mkPtok 41 ";" 9 13 24)) (mkPtok 42 "Packet" 9 2 21) (mkPtok 4 "=" 9 8 22) (VTrue (mkSpan (mkPtok 10 "true" 9 9 23) (mkPtok 10 "true" 9 9 23)) (mkPtok 10 "true" 9 9 23)) (Some (mkPtok 41 ";" 9 13 24)))] (mkPtok 3 "}" 9 15 25))); (DPacket (mkPacketDef (mkSpan (mkPtok 34 "root" 9 17 26) (mkPtok 3 "}" 29 4 85)) (Some (mkPtok 34 "root" 9 17 26)) (mkPtok 35 "packet" 9 22 27) (mkPtok 42 "tag" 10 0 28) (mkPtok 2 "{" 10 4 29) [(mkFieldWithAttr (mkSpan (mkPtok 23 "u64" 11 0 31) (mkPtok 40 "," 11 12 33)) [] (MetaField (mkSpan (mkPtok 23 "u64" 11 0 31) (mkPtok 40 "," 11 12 33)) None (mkMetaDecl (mkSpan (mkPtok 23 "u64" 11 0 31) (mkPtok 40 "," 11 12 33)) (TyBasic (mkSpan (mkPtok 23 "u64" 11 0 31) (mkPtok 23 "u64" 11 0 31)) (mkBasicType (mkSpan (mkPtok 23 "u64" 11 0 31) (mkPtok 23 "u64" 11 0 31)) (mkPtok 23 "u64" 11 0 31))) (mkPtok 42 "stringy" 11 4 32) None (mkPtok 40 "," 11 12 33)))); (mkFieldWithAttr (mkSpan (mkPtok 36 "repeat" 11 14 34) (mkPtok 40 "," 28 9 84)) [] (InerObjectField (mkSpan (mkPtok 36 "repeat" 11 14 34) (mkPtok 40 "," 28 9 84)) (Some (mkPtok 36 "repeat" 11 14 34)) (InerObjectDecl (mkSpan (mkPtok 42 "options1" 11 21 35) (mkPtok 3 "}" 28 7 83)) (mkPtok 42 "options1" 11 21 35) (mkPtok 2 "{" 12 0 36) [(MetaField (mkSpan (mkPtok 14 "zchar[" 12 2 37) (mkPtok 40 "," 13 10 42)) None (mkMetaDecl (mkSpan (mkPtok 14 "zchar[" 12 2 37) (mkPtok 40 "," 13 10 42)) (TyFixed (mkSpan (mkPtok 14 "zchar[" 12 2 37) (mkPtok 13 "]" 13 0 39)) (mkFixedString (mkSpan (mkPtok 14 "zchar[" 12 2 37) (mkPtok 13 "]" 13 0 39)) (mkPtok 14 "zchar[" 12 2 37) (mkPtok 30 "4294967296" 12 9 38) (mkPtok 13 "]" 13 0 39))) (mkPtok 42 "f32a" 13 2 40) (Some (mkPtok 43 "``" 13 7 41)) (mkPtok 40 "," 13 10 42))); (MatchField (mkSpan (mkPtok 38 "match" 13 12 43) (mkPtok 40 "," 28 6 82)) (mkMatchFieldDecl (mkSpan (mkPtok 38 "match" 13 12 43) (mkPtok 3 "}" 28 4 81)) (mkPtok 38 "match" 13 12 43) (mkPtok 42 "tag" 13 18 44) (mkPtok 17 "as" 13 22 45) (mkPtok 42 "options1" 15 4 47) (mkPtok 2 "{" 15 13 48) [(mkMatchPair (mkSpan (mkPtok 30 "10" 16 4 49) (mkPtok 40 "," 19 0 54)) (MKDigits (mkPtok 30 "10" 16 4 49)) (mkPtok 39 ":" 16 7 50) (mkPtok 42 "A" 16 9 51) (Some (mkPtok 40 "," 19 0 54))); (mkMatchPair (mkSpan (mkPtok 30 "007" 19 3 55) (mkPtok 40 "," 20 10 58)) (MKDigits (mkPtok 30 "007" 19 3 55)) (mkPtok 39 ":" 20 4 56) (mkPtok 42 "Pad" 20 6 57) (Some (mkPtok 40 "," 20 10 58))); (mkMatchPair (mkSpan (mkPtok 30 "0123456789" 20 12 59) (mkPtok 42 "calculatedFrom" 21 6 61)) (MKDigits (mkPtok 30 "0123456789" 20 12 59)) (mkPtok 39 ":" 21 4 60) (mkPtok 42 "calculatedFrom" 21 6 61) None); (mkMatchPair (mkSpan (mkPtok 30 "7" 21 21 62) (mkPtok 40 "," 21 33 65)) (MKDigits (mkPtok 30 "7" 21 21 62)) (mkPtok 39 ":" 21 23 63) (mkPtok 42 "stringy" 21 25 64) (Some (mkPtok 40 "," 21 33 65))); (mkMatchPair (mkSpan (mkPtok 18 "[" 22 0 66) (mkPtok 40 "," 24 24 75)) (MKList (mkKeyList (mkSpan (mkPtok 18 "[" 22 0 66) (mkPtok 13 "]" 24 11 72)) (mkPtok 18 "[" 22 0 66) (mkPtok 31 """a\""b""" 23 0 68) [((mkPtok 40 "," 23 7 69), (mkPtok 30 "0123456789" 24 0 71))] (mkPtok 13 "]" 24 11 72))) (mkPtok 39 ":" 24 13 73) (mkPtok 42 "options1" 24 15 74) (Some (mkPtok 40 "," 24 24 75))); (mkMatchPair (mkSpan (mkPtok 30 "3" 24 26 76) (mkPtok 40 "," 26 3 79)) (MKDigits (mkPtok 30 "3" 24 26 76)) (mkPtok 39 ":" 25 0 77) (mkPtok 42 "u8x" 26 0 78) (Some (mkPtok 40 "," 26 3 79)))] (mkPtok 3 "}" 28 4 81)) (mkPtok 40 "," 28 6 82))] (mkPtok 3 "}" 28 7 83)) (mkPtok 40 "," 28 9 84)))] (mkPtok 3 "}" 29 4 85))); (DPacket (mkPacketDef (mkSpan (mkPtok 35 "packet" 29 5 86) (mkPtok 3 "}" 47 7 154)) None (mkPtok 35 "packet" 29 5 86) (mkPtok 42 "len" 29 12 87) (mkPtok 2 "{" 29 16 88) [(mkFieldWithAttr (mkSpan (mkPtok 5 "@calculatedFrom(" 29 18 89) (mkPtok 40 "," 38 8 103)) [(FACalculatedFrom (mkSpan (mkPtok 5 "@calculatedFrom(" 29 18 89) (mkPtok 6 ")" 32 6 93)) (mkCalculatedFrom (mkSpan (mkPtok 5 "@calculatedFrom(" 29 18 89) (mkPtok 6 ")" 32 6 93)) (mkPtok 5 "@calculatedFrom(" 29 18 89) (mkPtok 31 (string_of_bytes [34; 195; 169; 116; 195; 169; 34]%N) 32 0 92) (mkPtok 6 ")" 32 6 93)))] (LengthField (mkSpan (mkPtok 24 "i8" 32 7 94) (mkPtok 40 "," 38 8 103)) (mkLengthFieldDecl (mkSpan (mkPtok 24 "i8" 32 7 94) (mkPtok 40 "," 38 8 103)) (Some (TyBasic (mkSpan (mkPtok 24 "i8" 32 7 94) (mkPtok 24 "i8" 32 7 94)) (mkBasicType (mkSpan (mkPtok 24 "i8" 32 7 94) (mkPtok 24 "i8" 32 7 94)) (mkPtok 24 "i8" 32 7 94)))) (mkPtok 42 "repeatCount" 35 0 97) (mkLengthOf (mkSpan (mkPtok 7 "@lengthOf(" 35 12 98) (mkPtok 6 ")" 38 6 102)) (mkPtok 7 "@lengthOf(" 35 12 98) (mkPtok 42 "roots" 38 0 101) (mkPtok 6 ")" 38 6 102)) None (mkPtok 40 "," 38 8 103)))); (mkFieldWithAttr (mkSpan (mkPtok 26 "int32" 39 0 104) (mkPtok 40 "," 40 29 110)) [] (CheckSumField (mkSpan (mkPtok 26 "int32" 39 0 104) (mkPtok 40 "," 40 29 110)) (mkChecksumFieldDecl (mkSpan (mkPtok 26 "int32" 39 0 104) (mkPtok 40 "," 40 29 110)) (Some (TyBasic (mkSpan (mkPtok 26 "int32" 39 0 104) (mkPtok 26 "int32" 39 0 104)) (mkBasicType (mkSpan (mkPtok 26 "int32" 39 0 104) (mkPtok 26 "int32" 39 0 104)) (mkPtok 26 "int32" 39 0 104)))) (mkPtok 42 "i64_" 39 6 105) (mkCalculatedFrom (mkSpan (mkPtok 5 "@calculatedFrom(" 40 0 107) (mkPtok 6 ")" 40 26 109)) (mkPtok 5 "@calculatedFrom(" 40 0 107) (mkPtok 31 """`tick`""" 40 17 108) (mkPtok 6 ")" 40 26 109)) None (mkPtok 40 "," 40 29 110)))); (mkFieldWithAttr (mkSpan (mkPtok 32 "@rightPad" 41 4 111) (mkPtok 40 "," 43 0 119)) [(FAPadding (mkSpan (mkPtok 32 "@rightPad" 41 4 111) (mkPtok 6 ")" 41 20 114)) (mkPaddingAttr (mkSpan (mkPtok 32 "@rightPad" 41 4 111) (mkPtok 6 ")" 41 20 114)) (mkPtok 32 "@rightPad" 41 4 111) (mkPtok 8 "(" 41 14 112) (Some (mkPtok 33 "' '" 41 16 113)) (mkPtok 6 ")" 41 20 114)))] (MetaField (mkSpan (mkPtok 36 "repeat" 41 22 115) (mkPtok 40 "," 43 0 119)) (Some (mkPtok 36 "repeat" 41 22 115)) (mkMetaDecl (mkSpan (mkPtok 16 "char[]" 42 0 116) (mkPtok 40 "," 43 0 119)) (TyDynamic (mkSpan (mkPtok 16 "char[]" 42 0 116) (mkPtok 16 "char[]" 42 0 116)) (mkDynamicString (mkSpan (mkPtok 16 "char[]" 42 0 116) (mkPtok 16 "char[]" 42 0 116)) (mkPtok 16 "char[]" 42 0 116))) (mkPtok 42 "u8x" 42 7 117) None (mkPtok 40 "," 43 0 119)))); (mkFieldWithAttr (mkSpan (mkPtok 32 "@rightPad" 43 2 120) (mkPtok 40 "," 47 5 153)) [(FAPadding (mkSpan (mkPtok 32 "@rightPad" 43 2 120) (mkPtok 6 ")" 43 19 123)) (mkPaddingAttr (mkSpan (mkPtok 32 "@rightPad" 43 2 120) (mkPtok 6 ")" 43 19 123)) (mkPtok 32 "@rightPad" 43 2 120) (mkPtok 8 "(" 43 11 121) (Some (mkPtok 33 "'\x00'" 43 12 122)) (mkPtok 6 ")" 43 19 123)))] (InerObjectField (mkSpan (mkPtok 42 "leftPad" 43 21 124) (mkPtok 40 "," 47 5 153)) None (InerObjectDecl (mkSpan (mkPtok 42 "leftPad" 43 21 124) (mkPtok 3 "}" 47 3 152)) (mkPtok 42 "leftPad" 43 21 124) (mkPtok 2 "{" 43 28 125) [(MatchField (mkSpan (mkPtok 38 "match" 43 30 126) (mkPtok 40 "," 47 1 151)) (mkMatchFieldDecl (mkSpan (mkPtok 38 "match" 43 30 126) (mkPtok 3 "}" 47 0 150)) (mkPtok 38 "match" 43 30 126) (mkPtok 42 "lengthOf" 43 36 127) (mkPtok 17 "as" 44 0 129) (mkPtok 42 "charz" 44 3 130) (mkPtok 2 "{" 44 9 131) [(mkMatchPair (mkSpan (mkPtok 31 """1""" 44 11 132) (mkPtok 42 "tag" 44 16 134)) (MKString (mkPtok 31 """1""" 44 11 132)) (mkPtok 39 ":" 44 15 133) (mkPtok 42 "tag" 44 16 134) None); (mkMatchPair (mkSpan (mkPtok 31 """// no comment""" 44 21 135) (mkPtok 40 "," 45 1 138)) (MKString (mkPtok 31 """// no comment""" 44 21 135)) (mkPtok 39 ":" 44 37 136) (mkPtok 42 "x" 45 0 137) (Some (mkPtok 40 "," 45 1 138))); (mkMatchPair (mkSpan (mkPtok 18 "[" 45 3 139) (mkPtok 42 "pack" 46 23 145)) (MKList (mkKeyList (mkSpan (mkPtok 18 "[" 45 3 139) (mkPtok 13 "]" 46 19 143)) (mkPtok 18 "[" 45 3 139) (mkPtok 31 (string_of_bytes [34; 195; 169; 116; 195; 169; 34]%N) 46 4 140) [((mkPtok 40 "," 46 10 141), (mkPtok 31 """CRC32""" 46 11 142))] (mkPtok 13 "]" 46 19 143))) (mkPtok 39 ":" 46 21 144) (mkPtok 42 "pack" 46 23 145) None); (mkMatchPair (mkSpan (mkPtok 30 "3" 46 28 146) (mkPtok 40 "," 46 37 149)) (MKDigits (mkPtok 30 "3" 46 28 146)) (mkPtok 39 ":" 46 29 147) (mkPtok 42 "charz" 46 31 148) (Some (mkPtok 40 "," 46 37 149)))] (mkPtok 3 "}" 47 0 150)) (mkPtok 40 "," 47 1 151))] (mkPtok 3 "}" 47 3 152)) (mkPtok 40 "," 47 5 153)))] (mkPtok 3 "}" 47 7 154))); (DOption (mkOptionDef (mkSpan (mkPtok 1 "options" 47 9 155) (mkPtok 3 "}" 49 0 157)) (mkPtok 1 "options" 47 9 155) (mkPtok 2 "{" 48 4 156) [] (mkPtok 3 "}" 49 0 157))); (DMeta (mkMetaDef (mkSpan (mkPtok 37 "MetaData" 50 4 158) (mkPtok 3 "}" 55 2 178)) (mkPtok 37 "MetaData" 50 4 158) (mkPtok 42 "matchKey" 51 0 159) (mkPtok 2 "{" 51 9 160) [(MIDecl (mkMetaDecl (mkSpan (mkPtok 23 "uint64" 51 10 161) (mkPtok 40 "," 51 28 163)) (TyBasic (mkSpan (mkPtok 23 "uint64" 51 10 161) (mkPtok 23 "uint64" 51 10 161)) (mkBasicType (mkSpan (mkPtok 23 "uint64" 51 10 161) (mkPtok 23 "uint64" 51 10 161)) (mkPtok 23 "uint64" 51 10 161))) (mkPtok 42 "repeatCount" 51 17 162) None (mkPtok 40 "," 51 28 163))); (MIRef (mkRefMetaDecl (mkSpan (mkPtok 42 "roots" 51 31 164) (mkPtok 40 "," 54 0 167)) (mkPtok 42 "roots" 51 31 164) (mkPtok 42 "x_y_z" 52 0 165) (Some (mkPtok 43 "`say ""hi""`" 53 0 166)) (mkPtok 40 "," 54 0 167))); (MIRef (mkRefMetaDecl (mkSpan (mkPtok 42 "roots" 54 2 168) (mkPtok 40 "," 54 11 170)) (mkPtok 42 "roots" 54 2 168) (mkPtok 42 "As" 54 8 169) None (mkPtok 40 "," 54 11 170))); (MIRef (mkRefMetaDecl (mkSpan (mkPtok 42 "A" 54 13 171) (mkPtok 40 "," 54 19 173)) (mkPtok 42 "A" 54 13 171) (mkPtok 42 "crc" 54 15 172) None (mkPtok 40 "," 54 19 173))); (MIDecl (mkMetaDecl (mkSpan (mkPtok 23 "uint64" 54 21 174) (mkPtok 40 "," 55 0 177)) (TyBasic (mkSpan (mkPtok 23 "uint64" 54 21 174) (mkPtok 23 "uint64" 54 21 174)) (mkBasicType (mkSpan (mkPtok 23 "uint64" 54 21 174) (mkPtok 23 "uint64" 54 21 174)) (mkPtok 23 "uint64" 54 21 174))) (mkPtok 42 "f32a" 54 28 175) None (mkPtok 40 "," 55 0 177)))] (mkPtok 3 "}" 55 2 178)))])).
+Eval vm_compute in ("<<<M128>>>" ++ check (runes_of_ascii "// 50% %s
+options {u8x
+=  ""\n"" u128 = '\x00' ; x = float32 ;	msg_type=
+    ""\n""
+    // " ++ [128512]%N ++ runes_of_ascii " emoji
+    ; crc = 7 }")).
+Eval vm_compute in ("<<<M138>>>" ++ check (runes_of_ascii "MetaData//
+uint8x { } packet
+BodyLength{ @calculatedFrom( ""{,}"" ) zchar // packet A { u8 x, }
+body ,
+char // a // b
+a1 `tab	here`	, match
+    matchKey as rootA { 0123456789
+    :float
+    }, match packetx as	calculatedFrom {
+    42//	t
+: x_y_z , } ,
+    } packet pack	{
+    // " ++ [128512]%N ++ runes_of_ascii " emoji
+    string// packet A { u8 x, }
+x_y_z
+    ,
+    @calculatedFrom( ""a\\"" // " ++ [27880; 37322]%N ++ runes_of_ascii "
+) repeat
+u Foo
+`` , //	t
+}
+")).
+Eval vm_compute in ("<<<M148>>>" ++ check (runes_of_ascii "
+root packet matchKey {  repeat x{ trueish calculatedFrom, match leftPad
+as _x
+{ 1
+:i64_
+,  """ ++ [28040; 24687]%N ++ runes_of_ascii """
+    :	options1
+    // c
+    }  ,repeat char[]  uint8x ,A{repeat metadata
+roots `a\` , //
+char[10 ] x_y_z@calculatedFrom( ""\" ++ [233]%N ++ runes_of_ascii """ ) `tab	here` ,leftPad, float32 f32a @calculatedFrom(
+""" ++ [233]%N ++ runes_of_ascii "t" ++ [233]%N ++ runes_of_ascii """ ) `{ , }`
+,
+} // `tick` ""quote"" 'q'
+, }
+    ,
+// trailing space 
+// c
+}
+")).
+Eval vm_compute in ("<<<M158>>>" ++ check (runes_of_ascii "packet trueish {
+zchar[ 65535
+    ] x_y_z , repeat
+char[
+7
+]
+Foo`say ""hi""`, zchar[4294967296
+] trueish ,@tag(
+// " ++ [128512]%N ++ runes_of_ascii " emoji
+// 50% %s
+1	) matchKey
+    { match uint8x
+    as
+Z9_ {
+    // @lengthOf(
+    [
+10
+] : matchKey}
+    ,
+}, } options { int = true }
+
+")).
+Eval vm_compute in ("<<<M168>>>" ++ check (runes_of_ascii "packet roots
+{ match charz as u128  {
+65535
+:
+calculatedFrom , } ,@lengthOf( T ) @lengthOf(
+    len
+    )
+/// triple
+//	t
+@rightPad ( '0' )u64	repeatCount @calculatedFrom( ""abc""
+    ) `line1
+line2`
+, } packet string_ { @tag(00 // trailing space 
+) @tag( //x
+4294967296 ) i8
+msg_type ,f32 x	, @calculatedFrom( """ ++ [28040; 24687]%N ++ runes_of_ascii """ ) float32
+// c
+// trailing space 
+leftPad
+@lengthOf(  T ) ,repeatCount string_ ,
+// packet A { u8 x, }
+// " ++ [128512]%N ++ runes_of_ascii " emoji
+}
+MetaData o { // a // b
+} 	 ")).
+Eval vm_compute in ("<<<M178>>>" ++ check (runes_of_ascii "
+packet int{ @tag(	4294967296 )string// trailing space 
+int , match string_
+//
+// 50% %s
+as
+matchKey
+{ ""it's"":
+    uint8x 10 : u128	,
+    // 50% %s
+    007: lengthOf	, }  ,
+    // packet A { u8 x, }
+    @calculatedFrom( ""{,}"" )
+int64 stringy
+@calculatedFrom( ""CRC32""
+)
+    , f64
+    f32a ,  u @lengthOf( lengthOf )
+`u8 x,`	, // " ++ [128512]%N ++ runes_of_ascii " emoji
+match
+Packet
+    as	rootA
+// @lengthOf(
+// " ++ [128512]%N ++ runes_of_ascii " emoji
+{ 42 :
+stringy
+    // c
+    , } , trueish , @calculatedFrom( ""x y"" )@tag(
+    42
+) char[
+    255 ]x@lengthOf(int ) , }
+    packet T {  match
+    float	as
+o { ""a\""b""
+:T
+,
+// trailing space 
+// trailing space 
+65535 : roots ,  }
+    , }packet pack { // trailing space 
+@leftPad(
+'\x00'
+) // 50% %s
+@calculatedFrom(//
+""" ++ [233]%N ++ runes_of_ascii "t" ++ [233]%N ++ runes_of_ascii """ )  string As // a // b
+@calculatedFrom(""CRC32"" ) , }
+")).
+Eval vm_compute in ("<<<M188>>>" ++ check (runes_of_ascii "MetaData  len {	trueish int ,  i64 charz
+    // " ++ [128512]%N ++ runes_of_ascii " emoji
+    ,	int32 chars , u16
+    Logon `100% of %d`
+, zchar[00
+] zchar
+    ,/// triple
+}")).
+Eval vm_compute in ("<<<T188>>>" ++ terms [mkTok 37 "MetaData" 1 0 false; mkTok 42 "len" 1 10 false; mkTok 2 "{" 1 14 false; mkTok 42 "trueish" 1 16 false; mkTok 42 "int" 1 24 false; mkTok 40 "," 1 28 false; mkTok 27 "i64" 1 31 false; mkTok 42 "charz" 1 35 false; mkTok 44 (string_of_bytes [47; 47; 32; 240; 159; 152; 128; 32; 101; 109; 111; 106; 105]%N) 2 4 true; mkTok 40 "," 3 4 false; mkTok 26 "int32" 3 6 false; mkTok 42 "chars" 3 12 false; mkTok 40 "," 3 18 false; mkTok 21 "u16" 3 20 false; mkTok 42 "Logon" 4 4 false; mkTok 43 "`100% of %d`" 4 10 false; mkTok 40 "," 5 0 false; mkTok 14 "zchar[" 5 2 false; mkTok 30 "00" 5 8 false; mkTok 13 "]" 6 0 false; mkTok 42 "zchar" 6 2 false; mkTok 40 "," 7 4 false; mkTok 44 "/// triple" 7 5 true; mkTok 3 "}" 8 0 false; mkTok 0 "<EOF>" 8 1 false] (mkPacket (mkPtok 37 "MetaData" 1 0 0) (Some (mkPtok 3 "}" 8 0 23)) [(DMeta (mkMetaDef (mkSpan (mkPtok 37 "MetaData" 1 0 0) (mkPtok 3 "}" 8 0 23)) (mkPtok 37 "MetaData" 1 0 0) (mkPtok 42 "len" 1 10 1) (mkPtok 2 "{" 1 14 2) [(MIRef (mkRefMetaDecl (mkSpan (mkPtok 42 "trueish" 1 16 3) (mkPtok 40 "," 1 28 5)) (mkPtok 42 "trueish" 1 16 3) (mkPtok 42 "int" 1 24 4) None (mkPtok 40 "," 1 28 5))); (MIDecl (mkMetaDecl (mkSpan (mkPtok 27 "i64" 1 31 6) (mkPtok 40 "," 3 4 9)) (TyBasic (mkSpan (mkPtok 27 "i64" 1 31 6) (mkPtok 27 "i64" 1 31 6)) (mkBasicType (mkSpan (mkPtok 27 "i64" 1 31 6) (mkPtok 27 "i64" 1 31 6)) (mkPtok 27 "i64" 1 31 6))) (mkPtok 42 "charz" 1 35 7) None (mkPtok 40 "," 3 4 9))); (MIDecl (mkMetaDecl (mkSpan (mkPtok 26 "int32" 3 6 10) (mkPtok 40 "," 3 18 12)) (TyBasic (mkSpan (mkPtok 26 "int32" 3 6 10) (mkPtok 26 "int32" 3 6 10)) (mkBasicType (mkSpan (mkPtok 26 "int32" 3 6 10) (mkPtok 26 "int32" 3 6 10)) (mkPtok 26 "int32" 3 6 10))) (mkPtok 42 "chars" 3 12 11) None (mkPtok 40 "," 3 18 12))); (MIDecl (mkMetaDecl (mkSpan (mkPtok 21 "u16" 3 20 13) (mkPtok 40 "," 5 0 16)) (TyBasic (mkSpan (mkPtok 21 "u16" 3 20 13) (mkPtok 21 "u16" 3 20 13)) (mkBasicType (mkSpan (mkPtok 21 "u16" 3 20 13) (mkPtok 21 "u16" 3 20 13)) (mkPtok 21 "u16" 3 20 13))) (mkPtok 42 "Logon" 4 4 14) (Some (mkPtok 43 "`100% of %d`" 4 10 15)) (mkPtok 40 "," 5 0 16))); (MIDecl (mkMetaDecl (mkSpan (mkPtok 14 "zchar[" 5 2 17) (mkPtok 40 "," 7 4 21)) (TyFixed (mkSpan (mkPtok 14 "zchar[" 5 2 17) (mkPtok 13 "]" 6 0 19)) (mkFixedString (mkSpan (mkPtok 14 "zchar[" 5 2 17) (mkPtok 13 "]" 6 0 19)) (mkPtok 14 "zchar[" 5 2 17) (mkPtok 30 "00" 5 8 18) (mkPtok 13 "]" 6 0 19))) (mkPtok 42 "zchar" 6 2 20) None (mkPtok 40 "," 7 4 21)))] (mkPtok 3 "}" 8 0 23)))])).
+Eval vm_compute in ("<<<M198>>>" ++ check (runes_of_ascii "/// triple
+root packet
+    lengthOf
+    { @lengthOf(
+Header) @tag(
+255 )lengthOf//x
+MetaDataX ,
+    @tag(// trailing space 
+0
+    ) match int // 50% %s
+as // 50% %s
+repeatCount {""a\""b"" : rootA ,007 :MetaDataX
+    ,  42
+    /// triple
+    : uint8x , [ ""it's""// " ++ [128512]%N ++ runes_of_ascii " emoji
+, //
+3	] // a // b
+:
+a1 3 :_x, },// 50% %s
+@calculatedFrom( ""\n"" ) zchar[//	t
+42] zchar @calculatedFrom(
+// " ++ [128512]%N ++ runes_of_ascii " emoji
+// trailing space 
+""" ++ [128512]%N ++ runes_of_ascii """ )// " ++ [128512]%N ++ runes_of_ascii " emoji
+, @calculatedFrom(// trailing space 
+""x y"") repeat float32
+charz `" ++ [233]%N ++ runes_of_ascii "` ,
+// c
+// c
+}
+//	t
+")).
+Eval vm_compute in ("<<<M208>>>" ++ check (runes_of_ascii "MetaData
+msg_type { options1 A, string metadata `tab	here`
+    , uint32 BodyLength ,} packet
+// trailing space 
+// a // b
+T {// packet A { u8 x, }
+}
+    packet
+    charz { roots  @lengthOf( msg_type ) // 50% %s
+`// not a comment` , int32 a1 `{ , }` ,	match leftPad as string_	{	65535 :f32a
+, }
+, } options
+{ options1 = true ; }")).
+Eval vm_compute in ("<<<M218>>>" ++ check (runes_of_ascii "MetaData Header{
+}	root packet options1 {
+crc metadata`" ++ [233]%N ++ runes_of_ascii "` , }packet A { }root packet
+leftPad	{ } MetaData Header { MetaDataX
+// packet A { u8 x, }
+// 50% %s
+i8i8 `u8 x,`,	}
+")).
+Eval vm_compute in ("<<<M228>>>" ++ check (runes_of_ascii "// 50% %s
+packet rootA	{ @lengthOf(u8x )	Z9_ @lengthOf(charz
+) , }
+    packet
+// " ++ [27880; 37322]%N ++ runes_of_ascii "
+//
+crc{	@calculatedFrom(
+    // a // b
+    ""a\""b"" )
+    repeat
+msg_type `{ , }`  ,
+    @tag( 42 ) repeat char[ 42 ] packetx `{ , }`,options1/// triple
+{
+    //
+    zchar[ 4294967296 ]packetx
+    @calculatedFrom( ""CRC32""
+// c
+// `tick` ""quote"" 'q'
+)
+    , // `tick` ""quote"" 'q'
+u128  {	u32
+tag`doc`,
+    },
+} , @leftPad ( '0') falsey
+{match f32a
+as T{ ""a\""b"" : chars,// c
+""a\\""
+    :
+    body,
+    [ ""\n"" , ""CRC32"" , 0// c
+, 10	,
+""" ++ [233]%N ++ runes_of_ascii "t" ++ [233]%N ++ runes_of_ascii """
+    ]
+// " ++ [128512]%N ++ runes_of_ascii " emoji
+// " ++ [27880; 37322]%N ++ runes_of_ascii "
+:
+    packetx	,
+[""a\""b"" /// triple
+] :
+A
+0
+: leftPad
+,
+    /// triple
+    4294967296 :
+BodyLength, } ,msg_type
+// " ++ [27880; 37322]%N ++ runes_of_ascii "
+//
+,
+}
+,}")).
+Eval vm_compute in ("<<<M238>>>" ++ check (runes_of_ascii "root packet Header { @calculatedFrom( //
+""abc""
+) uint8 metadata ,
+@tag(
+65535
+    ) @tag( 3 )
+i8 charz , @calculatedFrom( """"
+) @lengthOf( A ) @leftPad( ) uint16 Z9_ ,
+repeat zchar[ // " ++ [27880; 37322]%N ++ runes_of_ascii "
+1 ] metadata
+``,u8x @calculatedFrom(	""" ++ [128512]%N ++ runes_of_ascii """ )
+    //x
+    `{ , }` //x
+, repeat f32
+    Foo , len
+// " ++ [128512]%N ++ runes_of_ascii " emoji
+// `tick` ""quote"" 'q'
+@calculatedFrom( ""// no comment"" )
+,repeat char[ 3  ]tag, repeat zchar[ 0123456789 ]
+    asx
+,
+    u128, } options {	asx =007 ; calculatedFrom
+    = false ; uint8x= zchar[ 65535
+]
+; A=
+' '
+    } packet len
+    // `tick` ""quote"" 'q'
+    { @leftPad
+    ( ' ' )	string Pad
+    // packet A { u8 x, }
+    @calculatedFrom(""a\""b""  )	,
+    }packet stringy  {@leftPad(
+' ' ) repeat i64_ ,
+    }
+")).
+Eval vm_compute in ("<<<M248>>>" ++ check (runes_of_ascii "root packet charz
+    {
+o A , } root packet charz
+{char[] repeatCount  @lengthOf(  tag )	`line1
+line2` , repeat pack`two words`
+,	T { // packet A { u8 x, }
+string rootA @calculatedFrom( ""{,}"" ) ,}, repeat
+// " ++ [27880; 37322]%N ++ runes_of_ascii "
+// " ++ [128512]%N ++ runes_of_ascii " emoji
+As Foo ,
+// packet A { u8 x, }
+// c
+char[
+    3 ]trueish , @calculatedFrom( """"  ) @lengthOf( metadata )
+@leftPad (
+    '0' )  repeat u64 float`u8 x,`
+, stringy{ metadata {//x
+u8 f32a
+// c
+// " ++ [27880; 37322]%N ++ runes_of_ascii "
+`" ++ [28040; 24687; 31867; 22411]%N ++ runes_of_ascii "`, repeat char[
+    /// triple
+    007
+    ] f32a`two words`,  } , asx , float64
+i8i8
+    ,
+//x
+// packet A { u8 x, }
+} , match lengthOf
+as zchar {	00 // c
+:
+o
+,
+}, }options // packet A { u8 x, }
+{
+tag
+    =65535;
+/// triple
+// 50% %s
+float = 0}	packet T {
+repeat
+    // 50% %s
+    x_y_z o
+`it's` ,A { Pad@calculatedFrom(	""\n"" ),	zchar[00
+    ]i64_
+@lengthOf( Z9_ )
+`u8 x,` ,
+u64 u8x
+@calculatedFrom(
+    // trailing space 
+    ""it's"" )
+, }
+, match
+Header as f32a { [
+    1
+    , // " ++ [27880; 37322]%N ++ runes_of_ascii "
+0123456789  ] : int } , // packet A { u8 x, }
+char[]
+    roots @calculatedFrom("""" )`say ""hi""` ,
+    @leftPad ( ) a1 chars , }
+//	t
 ")).
 Eval vm_compute in ("<<<M258>>>" ++ check (runes_of_ascii "
-options
-{}")).
-Eval vm_compute in ("<<<T258>>>" ++ terms [mkTok 1 "options" 2 0 false; mkTok 2 "{" 3 0 false; mkTok 3 "}" 3 1 false; mkTok 0 "<EOF>" 3 2 false] (mkPacket (mkPtok 1 "options" 2 0 0) (Some (mkPtok 3 "}" 3 1 2)) [(DOption (mkOptionDef (mkSpan (mkPtok 1 "options" 2 0 0) (mkPtok 3 "}" 3 1 2)) (mkPtok 1 "options" 2 0 0) (mkPtok 2 "{" 3 0 1) [] (mkPtok 3 "}" 3 1 2)))])).
-Eval vm_compute in ("<<<M268>>>" ++ check (runes_of_ascii "
-packet leftPad
-    {}	packet u{@leftPad
-( ' ' )
-    char[65535 ]leftPad, int8
-packetx ,
-string stringy `crlf
-line` ,@leftPad
-( // @lengthOf(
-' ' // " ++ [27880; 37322]%N ++ runes_of_ascii "
-) // " ++ [128512]%N ++ runes_of_ascii " emoji
-i64 x
-@lengthOf( u )
-    `" ++ [28040; 24687; 31867; 22411]%N ++ runes_of_ascii "`	,@lengthOf( pack )
-// a // b
-//
-u64 asx  @lengthOf( repeatCount )
-    `u8 x,` , o A ,}	root packet charz{
-char[]repeatCount
-    //x
-    @lengthOf( tag ) ``
+MetaData	f32a { uint8x  zchar`" ++ [28040; 24687; 31867; 22411]%N ++ runes_of_ascii "` ,i32 Logon
+    , }
+options{
+    repeatCount= ""\n""; trueish=
+    zchar[ 4294967296 ]
+    ; }
+    // c
+    MetaData body { char[] T
+, x_y_z
+    Packet `crlf
+line` , uint32 matchKey ,
+x tag ,}")).
+Eval vm_compute in ("<<<T258>>>" ++ terms [mkTok 37 "MetaData" 2 0 false; mkTok 42 "f32a" 2 9 false; mkTok 2 "{" 2 14 false; mkTok 42 "uint8x" 2 16 false; mkTok 42 "zchar" 2 24 false; mkTok 43 (string_of_bytes [96; 230; 182; 136; 230; 129; 175; 231; 177; 187; 229; 158; 139; 96]%N) 2 29 false; mkTok 40 "," 2 36 false; mkTok 26 "i32" 2 37 false; mkTok 42 "Logon" 2 41 false; mkTok 40 "," 3 4 false; mkTok 3 "}" 3 6 false; mkTok 1 "options" 4 0 false; mkTok 2 "{" 4 7 false; mkTok 42 "repeatCount" 5 4 false; mkTok 4 "=" 5 15 false; mkTok 31 """\n""" 5 17 false; mkTok 41 ";" 5 21 false; mkTok 42 "trueish" 5 23 false; mkTok 4 "=" 5 30 false; mkTok 14 "zchar[" 6 4 false; mkTok 30 "4294967296" 6 11 false; mkTok 13 "]" 6 22 false; mkTok 41 ";" 7 4 false; mkTok 3 "}" 7 6 false; mkTok 44 "// c" 8 4 true; mkTok 37 "MetaData" 9 4 false; mkTok 42 "body" 9 13 false; mkTok 2 "{" 9 18 false; mkTok 16 "char[]" 9 20 false; mkTok 42 "T" 9 27 false; mkTok 40 "," 10 0 false; mkTok 42 "x_y_z" 10 2 false; mkTok 42 "Packet" 11 4 false; mkTok 43 (string_of_bytes [96; 99; 114; 108; 102; 13; 10; 108; 105; 110; 101; 96]%N) 11 11 false; mkTok 40 "," 12 6 false; mkTok 22 "uint32" 12 8 false; mkTok 42 "matchKey" 12 15 false; mkTok 40 "," 12 24 false; mkTok 42 "x" 13 0 false; mkTok 42 "tag" 13 2 false; mkTok 40 "," 13 6 false; mkTok 3 "}" 13 7 false; mkTok 0 "<EOF>" 13 8 false] (mkPacket (mkPtok 37 "MetaData" 2 0 0) (Some (mkPtok 3 "}" 13 7 41)) [(DMeta (mkMetaDef (mkSpan (mkPtok 37 "MetaData" 2 0 0) (mkPtok 3 "}" 3 6 10)) (mkPtok 37 "MetaData" 2 0 0) (mkPtok 42 "f32a" 2 9 1) (mkPtok 2 "{" 2 14 2) [(MIRef (mkRefMetaDecl (mkSpan (mkPtok 42 "uint8x" 2 16 3) (mkPtok 40 "," 2 36 6)) (mkPtok 42 "uint8x" 2 16 3) (mkPtok 42 "zchar" 2 24 4) (Some (mkPtok 43 (string_of_bytes [96; 230; 182; 136; 230; 129; 175; 231; 177; 187; 229; 158; 139; 96]%N) 2 29 5)) (mkPtok 40 "," 2 36 6))); (MIDecl (mkMetaDecl (mkSpan (mkPtok 26 "i32" 2 37 7) (mkPtok 40 "," 3 4 9)) (TyBasic (mkSpan (mkPtok 26 "i32" 2 37 7) (mkPtok 26 "i32" 2 37 7)) (mkBasicType (mkSpan (mkPtok 26 "i32" 2 37 7) (mkPtok 26 "i32" 2 37 7)) (mkPtok 26 "i32" 2 37 7))) (mkPtok 42 "Logon" 2 41 8) None (mkPtok 40 "," 3 4 9)))] (mkPtok 3 "}" 3 6 10))); (DOption (mkOptionDef (mkSpan (mkPtok 1 "options" 4 0 11) (mkPtok 3 "}" 7 6 23)) (mkPtok 1 "options" 4 0 11) (mkPtok 2 "{" 4 7 12) [(mkOptionDecl (mkSpan (mkPtok 42 "repeatCount" 5 4 13) (mkPtok 41 ";" 5 21 16)) (mkPtok 42 "repeatCount" 5 4 13) (mkPtok 4 "=" 5 15 14) (VString (mkSpan (mkPtok 31 """\n""" 5 17 15) (mkPtok 31 """\n""" 5 17 15)) (mkPtok 31 """\n""" 5 17 15)) (Some (mkPtok 41 ";" 5 21 16))); (mkOptionDecl (mkSpan (mkPtok 42 "trueish" 5 23 17) (mkPtok 41 ";" 7 4 22)) (mkPtok 42 "trueish" 5 23 17) (mkPtok 4 "=" 5 30 18) (VType (mkSpan (mkPtok 14 "zchar[" 6 4 19) (mkPtok 13 "]" 6 22 21)) (TyFixed (mkSpan (mkPtok 14 "zchar[" 6 4 19) (mkPtok 13 "]" 6 22 21)) (mkFixedString (mkSpan (mkPtok 14 "zchar[" 6 4 19) (mkPtok 13 "]" 6 22 21)) (mkPtok 14 "zchar[" 6 4 19) (mkPtok 30 "4294967296" 6 11 20) (mkPtok 13 "]" 6 22 21)))) (Some (mkPtok 41 ";" 7 4 22)))] (mkPtok 3 "}" 7 6 23))); (DMeta (mkMetaDef (mkSpan (mkPtok 37 "MetaData" 9 4 25) (mkPtok 3 "}" 13 7 41)) (mkPtok 37 "MetaData" 9 4 25) (mkPtok 42 "body" 9 13 26) (mkPtok 2 "{" 9 18 27) [(MIDecl (mkMetaDecl (mkSpan (mkPtok 16 "char[]" 9 20 28) (mkPtok 40 "," 10 0 30)) (TyDynamic (mkSpan (mkPtok 16 "char[]" 9 20 28) (mkPtok 16 "char[]" 9 20 28)) (mkDynamicString (mkSpan (mkPtok 16 "char[]" 9 20 28) (mkPtok 16 "char[]" 9 20 28)) (mkPtok 16 "char[]" 9 20 28))) (mkPtok 42 "T" 9 27 29) None (mkPtok 40 "," 10 0 30))); (MIRef (mkRefMetaDecl (mkSpan (mkPtok 42 "x_y_z" 10 2 31) (mkPtok 40 "," 12 6 34)) (mkPtok 42 "x_y_z" 10 2 31) (mkPtok 42 "Packet" 11 4 32) (Some (mkPtok 43 (string_of_bytes [96; 99; 114; 108; 102; 13; 10; 108; 105; 110; 101; 96]%N) 11 11 33)) (mkPtok 40 "," 12 6 34))); (MIDecl (mkMetaDecl (mkSpan (mkPtok 22 "uint32" 12 8 35) (mkPtok 40 "," 12 24 37)) (TyBasic (mkSpan (mkPtok 22 "uint32" 12 8 35) (mkPtok 22 "uint32" 12 8 35)) (mkBasicType (mkSpan (mkPtok 22 "uint32" 12 8 35) (mkPtok 22 "uint32" 12 8 35)) (mkPtok 22 "uint32" 12 8 35))) (mkPtok 42 "matchKey" 12 15 36) None (mkPtok 40 "," 12 24 37))); (MIRef (mkRefMetaDecl (mkSpan (mkPtok 42 "x" 13 0 38) (mkPtok 40 "," 13 6 40)) (mkPtok 42 "x" 13 0 38) (mkPtok 42 "tag" 13 2 39) None (mkPtok 40 "," 13 6 40)))] (mkPtok 3 "}" 13 7 41)))])).
+Eval vm_compute in ("<<<M268>>>" ++ check (runes_of_ascii "root packet x_y_z{
+    //
+    T _x
+,@lengthOf(
+    uint8x
+)i32 Pad
+    // " ++ [128512]%N ++ runes_of_ascii " emoji
+    `tab	here` , repeat
+char[ 0]o `crlf
+line`	,i8i8 {
+int// packet A { u8 x, }
+Header `
+`  ,u8 f32a
+,}
 ,
-    repeat pack	`a\` , @calculatedFrom( ""// no comment""
-    //x
-    ) T { string rootA // " ++ [27880; 37322]%N ++ runes_of_ascii "
-@calculatedFrom(""{,}"" )  ,
-    }, repeat As
-    Foo
-, char[
-3] trueish ,@calculatedFrom(""""
-    )@lengthOf(
-metadata)@leftPad ('0'
-/// triple
-//x
-) repeat u64 float `{ , }`
-// " ++ [27880; 37322]%N ++ runes_of_ascii "
-// " ++ [128512]%N ++ runes_of_ascii " emoji
-, stringy {
-// packet A { u8 x, }
-// c
-metadata
-    { u8 f32a `two words` , repeat  char[ 007 ] f32a
-`
-` ,
-    } ,  u32 asx @calculatedFrom(""" ++ [233]%N ++ runes_of_ascii "t" ++ [233]%N ++ runes_of_ascii """
-) ,float64 i8i8 ,//x
-} ,
-// c
-// " ++ [27880; 37322]%N ++ runes_of_ascii "
-match lengthOf as zchar
-    /// triple
-    {
-    00 :o,  } , }")).
-Eval vm_compute in ("<<<M278>>>" ++ check (runes_of_ascii "packet asx { Logon{ body
-@calculatedFrom( // trailing space 
-""it's"" ) , // @lengthOf(
-char[ 3] MetaDataX , string
-    leftPad `crlf
-line` , u128@calculatedFrom( ""packet""
-    ),} , } //x
-packet
-x_y_z
-    // packet A { u8 x, }
-    { len {
-    match leftPad// c
-as
-rootA {[007 // trailing space 
-, ""a\\"" , 0123456789,
-    ""\" ++ [233]%N ++ runes_of_ascii """ , ""`tick`"" , ""{,}""
-    ] : falsey , 4294967296:	matchKey
-, // packet A { u8 x, }
-}
-    , int32 //	t
-Z9_ // " ++ [27880; 37322]%N ++ runes_of_ascii "
-,a1
-{
-    x_y_z ,
-    repeat	_x `doc` , char[]falsey
-    @lengthOf(u128) `doc` ,
-    }/// triple
-,match Foo as
-stringy {7 : asx // " ++ [128512]%N ++ runes_of_ascii " emoji
-, ""x y""	:
-    calculatedFrom
-, }
-    , }, @lengthOf(i64_ ) @rightPad ( /// triple
-'\x00'// @lengthOf(
-)@tag( 42 )  char[]
-repeatCount ,
-match	Z9_ //x
-as  int {[//x
-""a	b"" ,	""abc""
-    , 255 , 7 // " ++ [128512]%N ++ runes_of_ascii " emoji
-] :asx
-""1"" : chars , [ ""a	b"", 00 ,4294967296 ] :
-leftPad , [
-65535
-, //x
-0 , //	t
-""abc"" // a // b
-, ""it's"", 007 ,
-    ""x y"" ,
-    255,3 ]  :
-leftPad
-    , [
-    //x
-    4294967296]: u
-,
-// " ++ [128512]%N ++ runes_of_ascii " emoji
-// " ++ [128512]%N ++ runes_of_ascii " emoji
-0123456789 :a1  } ,
-x_y_z  u8x ,  asx{ repeat
-Header float `crlf
-line`
-    , rootA
-charz// " ++ [128512]%N ++ runes_of_ascii " emoji
-`a\` , } , @calculatedFrom(""CRC32"" ) string string_
-,  @tag(
-65535 )  @rightPad ( '\x00' ) u8x	a1 `{ , }` , } options { // c
-float = // " ++ [27880; 37322]%N ++ runes_of_ascii "
-007 }
-root // c
-packet
-metadata {
-}
-")).
-Eval vm_compute in ("<<<M288>>>" ++ check (runes_of_ascii "options {BodyLength=	""abc"" ;
-int	=
-""""
-; chars
-    = true	body
-    =
-// c
-//
-'\x00'
-}
-")).
-Eval vm_compute in ("<<<M298>>>" ++ check (runes_of_ascii "MetaData
-Header { int64
-zchar
-`u8 x,` , Header u8x ,  zchar[ 65535]u ,	A options1
-`it's` , zchar[  007 ] MetaDataX , zchar[// `tick` ""quote"" 'q'
-0] As , }
-    MetaData Logon	{char[] rootA,
-} packet int
-{
-f32 falsey, } MetaData float { len
-leftPad ,
-    A
-    Foo
-`tab	here`
-    , char[ 65535
-] T
-`line1
-line2` ,	} options // " ++ [128512]%N ++ runes_of_ascii " emoji
-{
-// " ++ [128512]%N ++ runes_of_ascii " emoji
-// " ++ [27880; 37322]%N ++ runes_of_ascii "
+@lengthOf(
+    crc)	match i8i8 as
+Logon{  0123456789  :
 float
-    ='0'
+,}
+, int {
+    x `line1
+line2`,}
+    ,
+    // " ++ [128512]%N ++ runes_of_ascii " emoji
+    repeat falsey{options1 x `doc`	, i8i8
+    `u8 x,`
+    ,
+    } ,
+    repeat // `tick` ""quote"" 'q'
+zchar[ 0123456789// a // b
+] a1	,}	options
+{ } options  { } root packet metadata
+    {
+    @calculatedFrom( ""a\\""
+    ) string_
+{ pack { match
+msg_type
+as	MetaDataX { ""// no comment""
+// " ++ [27880; 37322]%N ++ runes_of_ascii "
+// 50% %s
+:string_ , [ 65535
+    ]:	roots
+,
+// packet A { u8 x, }
+// " ++ [128512]%N ++ runes_of_ascii " emoji
+10 :
+    metadata
+, 0 :_x ,
+    [
+0123456789
+, 007 ,  7 , 00 ,
+    4294967296 ] : trueish	, } // " ++ [128512]%N ++ runes_of_ascii " emoji
+, char[]
 //x
+// " ++ [128512]%N ++ runes_of_ascii " emoji
+u128
+    ,u64 u8x@lengthOf( string_ ) `doc`, }, // packet A { u8 x, }
+repeat
+    uint8
+    stringy  ,
+    // 50% %s
+    crc msg_type , } ,
+// `tick` ""quote"" 'q'
+// trailing space 
+@calculatedFrom( """ ++ [28040; 24687]%N ++ runes_of_ascii """	) int32 packetx`" ++ [233]%N ++ runes_of_ascii "` , Logon { match  uint8x as options1{""\" ++ [233]%N ++ runes_of_ascii """
+:
+    Z9_ ,
+// 50% %s
+// 50% %s
+} , } , } root packet // c
+options1 { @tag( 0 )  @calculatedFrom(
+""" ++ [233]%N ++ runes_of_ascii "t" ++ [233]%N ++ runes_of_ascii """ )
+@lengthOf(
+roots ) pack {i32
+    msg_type
+    , } ,	}")).
+Eval vm_compute in ("<<<M278>>>" ++ check (runes_of_ascii "packet As { // c
+repeat int32
+charz `doc` , }
+MetaData options1 //x
+{ } MetaData BodyLength { falsey u8x
 // a // b
-;float
-= true
-    ;	Foo = ""\n""}")).
+// packet A { u8 x, }
+`two words`, string_ u8x
+`{ , }` , string_	i64_
+//x
+// " ++ [128512]%N ++ runes_of_ascii " emoji
+`100% of %d`,
+int8 asx
+`tab	here`
+    ,
+    } packet f32a{ @leftPad ( ' ') char[ 1 ] msg_type
+@calculatedFrom( ""it's"" ),  msg_type, }
+")).
+Eval vm_compute in ("<<<M288>>>" ++ check (runes_of_ascii "MetaData A {
+    float32
+u128
+, metadata x_y_z	,zchar[// " ++ [27880; 37322]%N ++ runes_of_ascii "
+3
+    ] zchar , u16	u8x
+    ,}
+packet Packet {
+@calculatedFrom(
+"""" ) rootA float ``  , int32 rootA, repeat	float BodyLength
+`crlf
+line` , float  @lengthOf( u128 ) , }// `tick` ""quote"" 'q'
+MetaData len { A Foo
+    `100% of %d` ,	}")).
+Eval vm_compute in ("<<<M298>>>" ++ check (runes_of_ascii "// `tick` ""quote"" 'q'
+MetaData
+string_ { uint8
+asx
+    ,
+    string A //	t
+, }
+")).
 Eval vm_compute in ("<<<M308>>>" ++ check (runes_of_ascii "root packet SimpleMessage {
 	uint16 MsgType `" ++ [28040; 24687; 31867; 22411]%N ++ runes_of_ascii "`,
 	string JsonBody `Json" ++ [23383; 31526; 20018; 28040; 24687; 20307]%N ++ runes_of_ascii "`,
 }")).
-Eval vm_compute in ("<<<M318>>>" ++ check (runes_of_ascii "packet")).
-Eval vm_compute in ("<<<M328>>>" ++ check (runes_of_ascii "packet
-asx
-{")).
-Eval vm_compute in ("<<<M338>>>" ++ check (runes_of_ascii "packet
-asx
-{ Z9_ Header")).
-Eval vm_compute in ("<<<M348>>>" ++ check (runes_of_ascii "packet
-asx
-{ Z9_ Header// " ++ [128512]%N ++ runes_of_ascii " emoji
-,}")).
-Eval vm_compute in ("<<<M358>>>" ++ check (runes_of_ascii "packet
-asx
-{ Z9_ Header// " ++ [128512]%N ++ runes_of_ascii " emoji
-,} packet pack")).
-Eval vm_compute in ("<<<M368>>>" ++ check (runes_of_ascii "\ packet
-asx
-{ Z9_ Header// " ++ [128512]%N ++ runes_of_ascii " emoji
-,} packet pack
-    { }
+Eval vm_compute in ("<<<M318>>>" ++ check (runes_of_ascii "MetaData")).
+Eval vm_compute in ("<<<M328>>>" ++ check (runes_of_ascii "MetaData
+crc	{")).
+Eval vm_compute in ("<<<M338>>>" ++ check (runes_of_ascii "MetaData
+crc	{ char[] Z9_")).
+Eval vm_compute in ("<<<M348>>>" ++ check (runes_of_ascii "MetaData
+crc	{ char[] Z9_`{ , }`,")).
+Eval vm_compute in ("<<<M358>>>" ++ check (runes_of_ascii "MetaData
+crc	{ char[] Z9_`{ , }`,} options")).
+Eval vm_compute in ("<<<M368>>>" ++ check (runes_of_ascii "MetaData
+crc	{ char[] Z9_`{ , }`,} options { tag")).
+Eval vm_compute in ("<<<M378>>>" ++ check (runes_of_ascii "MetaData
+crc	{ char[] Z9_`{ , }`,} options { tag =
+    false")).
+Eval vm_compute in ("<<<M388>>>" ++ check (runes_of_ascii "MetaData
+crc	{ char[] Z9_`{ , }`,} options { tag =
+    false } packet")).
+Eval vm_compute in ("<<<M398>>>" ++ check (runes_of_ascii "MetaData
+crc	{ char[] Z9_`{ , }`,} options { tag =
+    false } packet
+// a // b
+// @lengthOf(
+Pad {")).
+Eval vm_compute in ("<<<M408>>>" ++ check (runes_of_ascii "MetaData
+crc	{ char[] Z9_`{ , }`,} options { tag =
+    false } packet
+// a // b
+// @lengthOf(
+Pad {Foo @calculatedFrom(")).
+Eval vm_compute in ("<<<M418>>>" ++ check (runes_of_ascii "MetaData
+crc	{ char[] Z9_`{ , }`,} options { tag =
+    false } packet
+// a // b
+// @lengthOf(
+Pad {Foo @calculatedFrom( // `tick` ""quote"" 'q'
+""a\\"" )")).
+Eval vm_compute in ("<<<M428>>>" ++ check (runes_of_ascii "MetaData
+crc	{ char[] Z9_`{ , }`,} options { tag =
+    false } packet
+// a // b
+// @lengthOf(
+Pad {Foo @calculatedFrom( // `tick` ""quote"" 'q'
+""a\\"" ) ,
+    trueish")).
+Eval vm_compute in ("<<<M438>>>" ++ check (runes_of_ascii "MetaData
+crc	{ char[] Z9_`{ , }`,} options { tag =
+    false } packet
+// a // b
+// @lengthOf(
+Pad {Foo @calculatedFrom( // `tick` ""quote"" 'q'
+""a\\"" ) ,
+    trueish ,
+    char[")).
+Eval vm_compute in ("<<<M448>>>" ++ check (runes_of_ascii "MetaData
+crc	{ char[] Z9_`{ , }`,} options { tag =
+    false } packet
+// a // b
+// @lengthOf(
+Pad {Foo @calculatedFrom( // `tick` ""quote"" 'q'
+""a\\"" ) ,
+    trueish ,
+    char[ 00]")).
+Eval vm_compute in ("<<<M458>>>" ++ check (runes_of_ascii "MetaData
+crc	{ char[] Z9_`{ , }`,} options { tag =
+    false } packet
+// a // b
+// @lengthOf(
+Pad ")).
+Eval vm_compute in ("<<<M468>>>" ++ check (runes_of_ascii "MetaData
+crc	{ char[] Z9_`{ , }`,} options { tag =
+    false } packet
+// a // b
+// @lengthOf(
+Pad {Foo @calculatedFrom( // `tick` ""quote"" 'q'
+""a\\"" ) ,
+   % trueish ,
+    char[ 00]
+    // " ++ [128512]%N ++ runes_of_ascii " emoji
+    packetx , }
 ")).
-Eval vm_compute in ("<<<M378>>>" ++ check (runes_of_ascii "packet
-asx
-{ Z9_ Header// " ++ [128512]%N ++ runes_of_ascii " emoji
-\,} packet pack
-    { }
+Eval vm_compute in ("<<<M478>>>" ++ check (runes_of_ascii "MetaData
+crc	{ char[] Z9_`{ , }`,} options { tag =
+    false } packet
+// a // b
+// @lengthOf(
+Pad {na" ++ [239]%N ++ runes_of_ascii "ve @calculatedFrom( // `tick` ""quote"" 'q'
+""a\\"" ) ,
+    trueish ,
+    char[ 00]
+    // " ++ [128512]%N ++ runes_of_ascii " emoji
+    packetx , }
 ")).
-Eval vm_compute in ("<<<M388>>>" ++ check (runes_of_ascii "@leftPad o { char[ // `tick` ""quote"" 'q'
-3] body, } packet o{
-u8
-charz ,
-    }")).
-Eval vm_compute in ("<<<M398>>>" ++ check (runes_of_ascii "MetaData o match char[ // `tick` ""quote"" 'q'
-3] body, } packet o{
-u8
-charz ,
-    }")).
-Eval vm_compute in ("<<<M408>>>" ++ check (runes_of_ascii "MetaData o { char[ // `tick` ""quote"" 'q'
-;] body, } packet o{
-u8
-charz ,
-    }")).
-Eval vm_compute in ("<<<M418>>>" ++ check (runes_of_ascii "MetaData o { char[ // `tick` ""quote"" 'q'
-3] i16, } packet o{
-u8
-charz ,
-    }")).
-Eval vm_compute in ("<<<M428>>>" ++ check (runes_of_ascii "MetaData o { char[ // `tick` ""quote"" 'q'
-3] body, @rightPad packet o{
-u8
-charz ,
-    }")).
-Eval vm_compute in ("<<<M438>>>" ++ check (runes_of_ascii "MetaData o { char[ // `tick` ""quote"" 'q'
-3] body, } packet ={
-u8
-charz ,
-    }")).
-Eval vm_compute in ("<<<M448>>>" ++ check (runes_of_ascii "MetaData o { char[ // `tick` ""quote"" 'q'
-3] body, } packet o{
-root
-charz ,
-    }")).
-Eval vm_compute in ("<<<M458>>>" ++ check (runes_of_ascii "MetaData o { char[ // `tick` ""quote"" 'q'
-3] body, } packet o{
-u8
-charz int64
-    }")).
-Eval vm_compute in ("<<<M468>>>" ++ check (runes_of_ascii "MetaData o ")).
-Eval vm_compute in ("<<<M478>>>" ++ check (runes_of_ascii "MetaData o { char[ // `tick` ""quote"" 'q'
-3] body, } packet o{
-u8
-c''harz ,
-    }")).
-Eval vm_compute in ("<<<M488>>>" ++ check (runes_of_ascii "{ options calculatedFrom =	int8 ;}
-
-")).
-Eval vm_compute in ("<<<M498>>>" ++ check (runes_of_ascii "options {= calculatedFrom	int8 ;}
-
-")).
-Eval vm_compute in ("<<<M508>>>" ++ check (runes_of_ascii "options {calculatedFrom =	; int8}
-
-")).
-Eval vm_compute in ("<<<M518>>>" ++ check (runes_of_ascii "options {calculatedFrom =	int8 ;int8
-
-")).
-Eval vm_compute in ("<<<M528>>>" ++ check (runes_of_ascii "options {ca" ++ [65279]%N ++ runes_of_ascii "lculatedFrom =	int8 ;}
-
-")).
-Eval vm_compute in ("<<<M538>>>" ++ check (runes_of_ascii "options {calculat`edFrom =	int8 ;}
-
-")).
-Eval vm_compute in ("<<<M548>>>" ++ check (runes_of_ascii "
-MetaData chars {packetx Logon,
-    float calculatedFrom
-,  u32 i64_ ,	}")).
-Eval vm_compute in ("<<<M558>>>" ++ check (runes_of_ascii "
-MetaData chars {Logon packetx,
-    float calculatedFrom
-,  u32 i64_ ,	")).
+Eval vm_compute in ("<<<M488>>>" ++ check (runes_of_ascii "root packet _x	{ @rightPad (
+' ' ) string  @lengthOf(
+    _x
+) , repeat Pad  { // " ++ [128512]%N ++ runes_of_ascii " emoji
+As
+// `tick` ""quote"" 'q'
+//x
+{matchKey chars,
+} , }, }")).
+Eval vm_compute in ("<<<M498>>>" ++ check (runes_of_ascii "root packet _x	{ @rightPad (
+' ' ) string u8x @lengthOf(
+    _x
+) , repeat Pad  { // " ++ [128512]%N ++ runes_of_ascii " emoji
+As
+// `tick` ""quote"" 'q'
+//x
+{matchKey ,chars
+} , }, }")).
+Eval vm_compute in ("<<<M508>>>" ++ check (runes_of_ascii "root packet `crlf
+line`	{ @rightPad (
+' ' ) string u8x @lengthOf(
+    _x
+) , repeat Pad  { // " ++ [128512]%N ++ runes_of_ascii " emoji
+As
+// `tick` ""quote"" 'q'
+//x
+{matchKey chars,
+} , }, }")).
+Eval vm_compute in ("<<<M518>>>" ++ check (runes_of_ascii "root packet _x	{ @rightPad (
+' ' ) string u8x @lengthOf(
+    _x
+) , repeat Pad  { // " ++ [128512]%N ++ runes_of_ascii " emoji
+As
+// `tick` ""quote"" 'q'
+//x
+{matchKey chars,
+} , repeat, }")).
+Eval vm_compute in ("<<<M528>>>" ++ check (runes_of_ascii "root packet _x	{ @rightPad (
+' ' ) string u8x @lengthOf(
+    _x
+) , repeat Pad  { // " ++ [128512]%N ++ runes_of_ascii " emoji
+match
+// `tick` ""quote"" 'q'
+//x
+{matchKey chars,
+} , }, }")).
+Eval vm_compute in ("<<<M538>>>" ++ check (runes_of_ascii "root packet _x	{ @rightPad (
+' ' ) string u8x @lengthOf(
+    _x
+) , repeat Pad  { // " ++ [128512]%N ++ runes_of_ascii " emoji
+As
+// `tick` ""quote"" 'q'
+//x
+[matchKey chars,
+} , }, }")).
+Eval vm_compute in ("<<<M548>>>" ++ check (runes_of_ascii "root packet _x	{ @rightPad (
+' ' ) string u8x @lengthOf(
+    _x
+) , repeat Pad  { // " ++ [128512]%N ++ runes_of_ascii " emoji
+As
+// `tick` ""quote"" 'q'
+//x
+{matchKey chars chars,
+} , }, }")).
+Eval vm_compute in ("<<<M558>>>" ++ check (runes_of_ascii "root packet _x	{ @rightPad (
+' ' ) string u8x @lengthOf(
+    _x
+) , repeat Pad  { // " ++ [128512]%N ++ runes_of_ascii " emoji
+As
+// `tick` ""quote"" 'q'
+//x
+{matchKey chars,
+} } ,, }")).
 Eval vm_compute in ("<<<M568>>>" ++ check (runes_of_ascii "		")).
-Eval vm_compute in ("<<<M578>>>" ++ check (runes_of_ascii """zI*sUjN%P95MCqfw;Z{.={R<""7D")).
-Eval vm_compute in ("<<<M588>>>" ++ check (runes_of_ascii "string (")).
-Eval vm_compute in ("<<<M598>>>" ++ check (runes_of_ascii "6oA=mnhAQiLRvqXCBP1ZG ePf,Mlj{,m,")).
+Eval vm_compute in ("<<<M578>>>" ++ check (runes_of_ascii "T23B$Sn2Nl} -DSJU[znVUK3aYgbLod-??]}bLSS")).
+Eval vm_compute in ("<<<M588>>>" ++ check (runes_of_ascii "u64 `{ , }` char[] string packet packet @lengthOf( } options")).
+Eval vm_compute in ("<<<M598>>>" ++ check (runes_of_ascii "xdN!@")).
